@@ -3,42 +3,33 @@ import Cx.Model.Dfa
   Cx.Proofs.DfaCache — (a) MEMOISATION IS INVISIBLE.
 
   The cached searches of `Cx.Model.Dfa` (`searchAtC`, `earliestC`, `anchoredC`: state ids, flat transition table per
-  byte class, start table, capacity check, clear-and-rebuild, give-up) against the same searches on state VALUES
-  (`searchAtU`, `earliestU`, `anchoredU`).
+  byte class, start table, capacity check, clear-and-reinsert, give-up, exact state acceleration, the 4x unrolled
+  block) against the same searches on state VALUES (`searchAtU`, `earliestU`, `anchoredU`).
 
   Invariant `Inv`: ids are consistent with the slot a state sits in; EVERY TABLE ENTRY `(S, class k) ↦ T` SATISFIES
   `T ≃ step S b` for every byte `b` of class `k` (`TransOK`), a dead entry means `step S b = dead`; start-table
-  entries point at the start state of their kind; fresh ids are fresh; a cache that was never cleared has nothing in
-  row 0.  It holds for `Cache.empty` and is preserved by `setTrans` (given `TransOK`), `insertNew`, `tagStart`,
-  `clearRebuild`, `tryDetect`, `determinize`, `getStart` and by the three searches (`searchAtC_inv`, `earliestC_inv`,
-  `anchoredC_inv`), for every capacity and every clear limit, whatever the cache went through before.
+  entries point at the start state of their kind; fresh ids are fresh; A STATE OBJECT THAT CARRIES EXIT BYTES LOOPS
+  BACK TO ITSELF (`≃`) ON EVERY OTHER BYTE (`AccelOK`, established by `detectAccelExact` from a completely known row).
+  It holds for `Cache.empty` and is preserved by `setTrans` (given `TransOK`), `insertNew`, `tagStart`, `clearRebuild`,
+  `tryDetect`, `determinize`, `getStart` and by the three searches, for every capacity and every clear limit, whatever
+  the cache went through before.
 
-  Hypotheses of the equalities, and why they are needed (each has a `decide`-checked counterexample in
-  `Cx.Proofs.Dfa` or a concrete witness found by the fidelity harness):
-    * `hasWB N = false`: with `\b`/`\B` the pre-check flags of a state depend on whether it was first created as a
-      start state or by `determinize`, and the start-state fast transition skips the pre-check;
-    * `ClassSound N cfg`: bytes of one class must have `≃`-equal transitions (the table is indexed by class).  Trivial
-      for `cls = id` (`classSound_id`); follows from the decidable `classStepB` / `classCompatB` for automata without
-      look-around (`Cx.Proofs.DfaRef.classSound_of_compat`); FALSE for compiled NFAs with `(?m)^` / `$` / `\b`, whose
-      byte classes do not separate `\n` (resp. word bytes) from the other bytes — a genuine defect of the code;
-    * `NoAccel c` (searchAt / earliest): no state object carries exit bytes and every state with a non-empty row has
-      been through the acceleration detection.  True for `Cache.empty`, preserved by `searchAt` / `searchEarliestMatch`
-      (they run the detection on a state before they ever fill its row, so it never finds anything) and by clears —
-      but NOT by `SearchAtAnchored`, which fills rows without detecting; after it the detection can succeed, and the
-      acceleration it enables is unsound (`Cx.Proofs.Dfa.accel_visible`);
-    * `c.clearCount = 0 ∨ noStartLookB N` (searchAt / earliest): a start state that cannot be cached gets the id
-      `InvalidState`, whose offset aliases row 0 in the unrolled block; row 0 is in use only after a clear and then holds
-      the `StartText` start state, which is equivalent to every other start state iff there is no `^`/`\A`;
-    * `cfg.maxClears = 0 ∧ c.clearCount = 0` (SearchAtAnchored): after a successful clear the loop restarts from the
-      anchored start state at the CURRENT position and forgets the threads in flight (`anchoredC_inv`: the invariant
-      itself survives).
-  `≃` is equality of the NFA-state list and of the match flag (`isFromWord` may differ: it is computed from the first
-  byte of the class that reached the state; it is irrelevant without word boundaries).
+  `≃` (`Eqv`) is equality of the NFA-state list, of the match flag, of the look-behind context, and — when the automaton
+  has `\b`/`\B` — of `isFromWord` (`isFromWord` is computed from the first byte of the class that reached the state; it is
+  irrelevant without word boundaries).  `step` and `checkEOI` respect it (`step_congr`, `checkEOI_congr`).
+
+  The only hypotheses of the equalities:
+    * `ClassSound N cfg`: bytes of one class have `≃`-equal transitions (the table is indexed by class).  Trivial for
+      `cls = id` (`classSound_id`); follows from the decidable `classStepB` / `classCompatB` (byte ranges AND the
+      distinctions made by the look-around of the automaton: `\n` when it has `(?m)^`/`$`, word bytes when it has
+      `\b`/`\B`) — `classSound_of_compat`;
+    * `BytesOK h`: the haystack consists of bytes.
+  No restriction on word boundaries, on acceleration, on the clear limit or on the history of the cache.
 -/
 namespace Cx.Dfa
 open Cx Cx.Nfa
 
-/-! ### without word boundaries, only the NFA-state list of the source matters -/
+/-! ### look sets only matter through the look states of the automaton -/
 
 theorem hasLookWhere_false {N : NFA} {p : Look → Bool} (hf : hasLookWhere N p = false) {q : Nat} {k : Look} {nx : Nat}
     (hq : N.get q = .look k nx) : p k = false := by
@@ -57,34 +48,211 @@ theorem hasLookWhere_false {N : NFA} {p : Look → Bool} (hf : hasLookWhere N p 
     rw [he] at hq
     cases hq
 
-theorem wbTarget_none {N : NFA} (hW : hasWB N = false) (sat : Bool) (q : Nat) : wbTarget N sat q = none := by
-  unfold wbTarget
-  split
-  · rename_i nx hq
-    have := hasLookWhere_false hW hq
-    simp at this
-  · rename_i nx hq
-    have := hasLookWhere_false hW hq
-    simp at this
-  · rfl
+/-- the two look sets are indistinguishable for the closure of `N` -/
+def LkEq (N : NFA) (lk lk' : LookSet) : Prop := ∀ q, succs N lk q = succs N lk' q
 
-theorem wbScan_id {N : NFA} (hW : hasWB N = false) (sat : Bool) : ∀ (l : List Nat) (cs : List Nat × List Nat),
-    wbScan N sat l cs = cs := by
-  intro l
-  induction l with
-  | nil => intro cs; rfl
-  | cons q qs ih => intro cs; simp only [wbScan, wbTarget_none hW]; exact ih cs
+theorem LkEq.refl (N : NFA) (lk : LookSet) : LkEq N lk lk := fun _ => rfl
+theorem LkEq.symm {N : NFA} {a b : LookSet} (h : LkEq N a b) : LkEq N b a := fun q => (h q).symm
+theorem LkEq.trans {N : NFA} {a b c : LookSet} (h1 : LkEq N a b) (h2 : LkEq N b c) : LkEq N a c :=
+  fun q => (h1 q).trans (h2 q)
 
-theorem resolveWB_id {N : NFA} (hW : hasWB N = false) (l : List Nat) (sat : Bool) : resolveWB N l sat = l := by
-  simp [resolveWB, wbScan_id hW]
+/-- look sets that agree on the kinds occurring in the automaton -/
+theorem lkEq_of_agree {N : NFA} {lk lk' : LookSet}
+    (h : ∀ q k nx, N.get q = .look k nx → lk.contains k = lk'.contains k) : LkEq N lk lk' := by
+  intro q
+  unfold succs
+  cases hq : N.get q with
+  | look k nx => simp only [h q k nx hq]
+  | _ => rfl
 
-theorem step_congr {N : NFA} (hW : hasWB N = false) (cfg : Config) {S S' : DState} (hn : S.nfa = S'.nfa) (b : Nat) :
-    step N cfg S b = step N cfg S' b := by
-  simp only [step, moveBreak, hW, hn, Bool.false_eq_true, ↓reduceIte, Bool.false_and]
+theorem closureInto_congr {N : NFA} {lk1 lk2 : LookSet} (hs : LkEq N lk1 lk2) :
+    ∀ (fuel : Nat) (st res : List Nat), closureInto N lk1 fuel st res = closureInto N lk2 fuel st res := by
+  intro fuel
+  induction fuel with
+  | zero => intro st res; rfl
+  | succ fuel ih =>
+    intro st res
+    cases st with
+    | nil => rfl
+    | cons q st =>
+      simp only [closureInto]
+      split
+      · exact ih st res
+      · rw [hs q]; exact ih _ _
 
-theorem checkEOI_congr {N : NFA} (hW : hasWB N = false) {S S' : DState} (hn : S.nfa = S'.nfa) :
-    checkEOI N S = checkEOI N S' := by
-  simp only [checkEOI, checkEOIStates, resolveWB_id hW, hn]
+theorem closeSeed_congr {N : NFA} {lk1 lk2 : LookSet} (hs : LkEq N lk1 lk2) (res : List Nat) (seed : Nat) :
+    closeSeed N lk1 res seed = closeSeed N lk2 res seed := closureInto_congr hs _ _ _
+
+theorem foldl_closeSeed_congr {N : NFA} {lk1 lk2 : LookSet} (hs : LkEq N lk1 lk2) :
+    ∀ (L res : List Nat), L.foldl (closeSeed N lk1) res = L.foldl (closeSeed N lk2) res := by
+  intro L
+  induction L with
+  | nil => intro res; rfl
+  | cons q qs ih => intro res; simp only [List.foldl]; rw [closeSeed_congr hs]; exact ih _
+
+theorem epsilonClosure_congr {N : NFA} {lk1 lk2 : LookSet} (hs : LkEq N lk1 lk2) (L : List Nat) :
+    epsilonClosure N L lk1 = epsilonClosure N L lk2 := foldl_closeSeed_congr hs L []
+
+theorem sparseInto_congr {N : NFA} {lk1 lk2 : LookSet} (hs : LkEq N lk1 lk2) (b : Nat) :
+    ∀ (ts : List (Nat × Nat × Nat)) (res : List Nat), sparseInto N lk1 b ts res = sparseInto N lk2 b ts res := by
+  intro ts
+  induction ts with
+  | nil => intro res; rfl
+  | cons t ts ih =>
+    intro res
+    obtain ⟨lo, hi, nx⟩ := t
+    simp only [sparseInto]
+    split
+    · rw [closeSeed_congr hs]; exact ih _
+    · exact ih _
+
+theorem moveLoop_congr {N : NFA} {lk1 lk2 : LookSet} (hs : LkEq N lk1 lk2) (b : Nat) (brk : Bool) :
+    ∀ (L res : List Nat), moveLoop N lk1 b brk L res = moveLoop N lk2 b brk L res := by
+  intro L
+  induction L with
+  | nil => intro res; rfl
+  | cons q qs ih =>
+    intro res
+    rw [moveLoop, moveLoop]
+    cases hg : N.get q with
+    | mtch => simp only; split
+              · rfl
+              · exact ih res
+    | byteRange lo hi nx =>
+      simp only
+      split
+      · rw [closeSeed_congr hs]; exact ih _
+      · exact ih _
+    | sparse ts => simp only; rw [sparseInto_congr hs]; exact ih _
+    | _ => exact ih res
+
+/-! ### equivalent DFA states -/
+
+/-- same threads, same match flag, same look-behind context, and the same `isFromWord` when it matters -/
+def Eqv (N : NFA) (S T : DState) : Prop :=
+  S.nfa = T.nfa ∧ S.isMatch = T.isMatch ∧ S.lhText = T.lhText ∧ S.lhLine = T.lhLine ∧
+    (hasWB N = true → S.fromWord = T.fromWord)
+
+theorem Eqv.refl (N : NFA) (S : DState) : Eqv N S S := ⟨rfl, rfl, rfl, rfl, fun _ => rfl⟩
+
+theorem Eqv.symm {N : NFA} {S T : DState} (h : Eqv N S T) : Eqv N T S :=
+  ⟨h.1.symm, h.2.1.symm, h.2.2.1.symm, h.2.2.2.1.symm, fun hw => (h.2.2.2.2 hw).symm⟩
+
+theorem Eqv.trans {N : NFA} {S T U : DState} (h1 : Eqv N S T) (h2 : Eqv N T U) : Eqv N S U :=
+  ⟨h1.1.trans h2.1, h1.2.1.trans h2.2.1, h1.2.2.1.trans h2.2.2.1, h1.2.2.2.1.trans h2.2.2.2.1,
+    fun hw => (h1.2.2.2.2 hw).trans (h2.2.2.2.2 hw)⟩
+
+theorem aheadLook_eqv {N : NFA} {S T : DState} (h : Eqv N S T) (b : Nat) : LkEq N (aheadLook S b) (aheadLook T b) := by
+  obtain ⟨_, _, h3, h4, h5⟩ := h
+  cases hw : hasWB N with
+  | true =>
+    have := h5 hw
+    unfold aheadLook
+    rw [h3, h4, this]
+    exact LkEq.refl _ _
+  | false =>
+    apply lkEq_of_agree
+    intro q k nx hq
+    have hk := hasLookWhere_false hw hq
+    cases k <;> simp_all [aheadLook, LookSet.contains]
+
+theorem eoiLook_eqv {N : NFA} {S T : DState} (h : Eqv N S T) : LkEq N (eoiLook S) (eoiLook T) := by
+  obtain ⟨_, _, h3, h4, h5⟩ := h
+  cases hw : hasWB N with
+  | true =>
+    have := h5 hw
+    unfold eoiLook
+    rw [h3, h4, this]
+    exact LkEq.refl _ _
+  | false =>
+    apply lkEq_of_agree
+    intro q k nx hq
+    have hk := hasLookWhere_false hw hq
+    cases k <;> simp_all [eoiLook, LookSet.contains]
+
+theorem resolved_congr {N : NFA} {S T : DState} (h : Eqv N S T) (b : Nat) : resolved N S b = resolved N T b := by
+  unfold resolved resolveLookAhead
+  rw [h.1, epsilonClosure_congr (aheadLook_eqv h b)]
+
+/-- `determinize` does not distinguish equivalent states -/
+theorem step_congr {N : NFA} (cfg : Config) {S T : DState} (h : Eqv N S T) (b : Nat) :
+    step N cfg S b = step N cfg T b := by
+  unfold step
+  rw [resolved_congr h b]
+
+theorem checkEOI_congr {N : NFA} {S T : DState} (h : Eqv N S T) : checkEOI N S = checkEOI N T := by
+  unfold checkEOI
+  rw [h.1, epsilonClosure_congr (eoiLook_eqv h)]
+
+theorem key_eq {S T : DState} (h : S.key = T.key) : S = T := by
+  unfold DState.key at h
+  simp only [Prod.mk.injEq] at h
+  obtain ⟨h1, h2, h3, h4, h5⟩ := h
+  cases S; cases T
+  simp_all
+
+/-! ### the uncached loops: canonical fuel, unfolding, congruence -/
+
+def BytesOK (h : Bytes) : Prop := ∀ i, h.at i < 256
+
+/-- `searchAt` without a cache from `pos` in state `S` -/
+def sU (N : NFA) (cfg : Config) (h : Bytes) (pos : Nat) (S : DState) (last : Option Nat) : Outcome (Option Nat) :=
+  searchLoopU N cfg h (h.size + 1 - pos) pos S last
+
+theorem sU_lt {N : NFA} {cfg : Config} {h : Bytes} {pos : Nat} (hlt : pos < h.size) (S : DState) (last : Option Nat) :
+    sU N cfg h pos S last =
+      (match step N cfg S (h.at pos) with
+       | .dead => .ok last
+       | .limit => .gaveUp
+       | .next T => sU N cfg h (pos+1) T (if T.isMatch then some pos else last)) := by
+  unfold sU
+  have : h.size + 1 - pos = (h.size + 1 - (pos + 1)) + 1 := by omega
+  rw [this, searchLoopU]
+  simp only [hlt, ↓reduceIte]
+  cases step N cfg S (h.at pos) <;> rfl
+
+theorem sU_ge {N : NFA} {cfg : Config} {h : Bytes} {pos : Nat} (hge : ¬ pos < h.size) (hle : pos ≤ h.size) (S : DState)
+    (last : Option Nat) :
+    sU N cfg h pos S last = if checkEOI N S then .ok (some h.size) else .ok last := by
+  unfold sU
+  have : h.size + 1 - pos = 0 + 1 := by omega
+  rw [this, searchLoopU]
+  simp only [hge, ↓reduceIte]
+
+theorem sU_congr {N : NFA} {cfg : Config} {h : Bytes} {S T : DState} (he : Eqv N S T) {pos : Nat} (hle : pos ≤ h.size)
+    (last : Option Nat) : sU N cfg h pos S last = sU N cfg h pos T last := by
+  by_cases hlt : pos < h.size
+  · rw [sU_lt hlt, sU_lt hlt, step_congr cfg he]
+  · rw [sU_ge hlt hle, sU_ge hlt hle, checkEOI_congr he]
+
+/-- `searchEarliestMatch` without a cache from `pos` in state `S` -/
+def eU (N : NFA) (cfg : Config) (h : Bytes) (pos : Nat) (S : DState) : Outcome Bool :=
+  earliestLoopU N cfg h (h.size + 1 - pos) pos S
+
+theorem eU_lt {N : NFA} {cfg : Config} {h : Bytes} {pos : Nat} (hlt : pos < h.size) (S : DState) :
+    eU N cfg h pos S =
+      (match step N cfg S (h.at pos) with
+       | .dead => .ok false
+       | .limit => .gaveUp
+       | .next T => if T.isMatch then .ok true else eU N cfg h (pos+1) T) := by
+  unfold eU
+  have : h.size + 1 - pos = (h.size + 1 - (pos + 1)) + 1 := by omega
+  rw [this, earliestLoopU]
+  simp only [hlt, ↓reduceIte]
+  cases step N cfg S (h.at pos) <;> rfl
+
+theorem eU_ge {N : NFA} {cfg : Config} {h : Bytes} {pos : Nat} (hge : ¬ pos < h.size) (hle : pos ≤ h.size) (S : DState) :
+    eU N cfg h pos S = .ok (checkEOI N S) := by
+  unfold eU
+  have : h.size + 1 - pos = 0 + 1 := by omega
+  rw [this, earliestLoopU]
+  simp only [hge, ↓reduceIte]
+
+theorem eU_congr {N : NFA} {cfg : Config} {h : Bytes} {S T : DState} (he : Eqv N S T) {pos : Nat} (hle : pos ≤ h.size) :
+    eU N cfg h pos S = eU N cfg h pos T := by
+  by_cases hlt : pos < h.size
+  · rw [eU_lt hlt, eU_lt hlt, step_congr cfg he]
+  · rw [eU_ge hlt hle, eU_ge hlt hle, checkEOI_congr he]
 
 /-! ### the invariant -/
 
@@ -92,33 +260,35 @@ theorem checkEOI_congr {N : NFA} (hW : hasWB N = false) {S S' : DState} (hn : S.
 def ClassSound (N : NFA) (cfg : Config) : Prop :=
   ∀ (S : DState) (b b' : Nat), b < 256 → b' < 256 → cfg.cls b = cfg.cls b' →
     (step N cfg S b = .dead → step N cfg S b' = .dead) ∧
-    (∀ T, step N cfg S b = .next T → ∃ T', step N cfg S b' = .next T' ∧ T'.nfa = T.nfa ∧ T'.isMatch = T.isMatch)
+    (∀ T, step N cfg S b = .next T → ∃ T', step N cfg S b' = .next T' ∧ Eqv N T' T)
 
 theorem classSound_id (N : NFA) (cfg : Config) (hid : ∀ b, cfg.cls b = b) : ClassSound N cfg := by
   intro S b b' _ _ hc
   rw [hid, hid] at hc
   subst hc
-  exact ⟨fun h => h, fun T h => ⟨T, h, rfl, rfl⟩⟩
-
-def BytesOK (h : Bytes) : Prop := ∀ i, h.at i < 256
+  exact ⟨fun h => h, fun T h => ⟨T, h, Eqv.refl N T⟩⟩
 
 /-- the table entry `t` for (state value `S`, class `k`) describes `step S b` for every byte `b` of the class -/
 def TransOK (N : NFA) (cfg : Config) (c : Cache) (S : DState) (k : Nat) (t : Sid) : Prop :=
   (t = Sid.deadS ∧ ∀ b, b < 256 → cfg.cls b = k → step N cfg S b = .dead) ∨
   (t.inv = false ∧ t.dead = false ∧ ∃ T, c.list.getD t.off none = some T ∧ t.mtch = T.st.isMatch ∧
-    ∀ b, b < 256 → cfg.cls b = k → ∃ T', step N cfg S b = .next T' ∧ T'.nfa = T.st.nfa ∧ T'.isMatch = T.st.isMatch)
+    ∀ b, b < 256 → cfg.cls b = k → ∃ T', step N cfg S b = .next T' ∧ Eqv N T' T.st)
+
+/-- the exit bytes of a state object are exact: every other byte loops back to an equivalent state -/
+def AccelOK (N : NFA) (cfg : Config) (cs : CState) : Prop :=
+  ∀ b, b < 256 → cs.accel.contains b = false → ∃ T, step N cfg cs.st b = .next T ∧ Eqv N T cs.st
 
 structure Inv (N : NFA) (cfg : Config) (c : Cache) : Prop where
   ids : ∀ i cs, c.list.getD i none = some cs →
     cs.id.off = i ∧ cs.id.inv = false ∧ cs.id.dead = false ∧ cs.id.mtch = cs.st.isMatch
   trans : ∀ r k, c.trans r k = Sid.invalid ∨ ∃ S, c.list.getD r none = some S ∧ TransOK N cfg c S.st k (c.trans r k)
   start : ∀ kd a, c.start kd a = Sid.invalid ∨ ((c.start kd a).inv = false ∧ (c.start kd a).dead = false ∧
-    ∃ T, c.list.getD (c.start kd a).off none = some T ∧ T.st.nfa = (startState N kd a).nfa)
+    ∃ T, c.list.getD (c.start kd a).off none = some T ∧ T.st = startState N kd a)
   idx : 1 ≤ c.nextIdx ∧ c.list.length ≤ c.nextIdx
-  row0 : c.clearCount = 0 → c.list.getD 0 none = none
-  row0st : ∀ cs, c.list.getD 0 none = some cs → cs.st.nfa = (startState N .text false).nfa
+  accel : ∀ i cs, c.list.getD i none = some cs → cs.accel ≠ [] → AccelOK N cfg cs
 
-/-- every state of `c` is still there in `c'`, with the same value (its id may have gained the start tag) -/
+/-- every state of `c` is still there in `c'`, with the same value (its id may have gained the start tag, its
+    acceleration fields may have been filled in) -/
 def Ext (c c' : Cache) : Prop :=
   ∀ i cs, c.list.getD i none = some cs → ∃ cs', c'.list.getD i none = some cs' ∧ cs'.st = cs.st
 
@@ -137,13 +307,19 @@ theorem TransOK.mono {N : NFA} {cfg : Config} {c c' : Cache} {S : DState} {k : N
   · obtain ⟨T', hT', hst⟩ := he _ _ hT
     exact Or.inr ⟨h1, h2, T', hT', by rw [hst]; exact hm, by rw [hst]; exact hs⟩
 
+theorem AccelOK.congr {N : NFA} {cfg : Config} {cs cs' : CState} (hst : cs'.st = cs.st) (hacc : cs'.accel = cs.accel)
+    (h : AccelOK N cfg cs) : AccelOK N cfg cs' := by
+  intro b hb hc
+  rw [hacc] at hc
+  rw [hst]
+  exact h b hb hc
+
 theorem inv_empty (N : NFA) (cfg : Config) : Inv N cfg Cache.empty where
   ids := by intro i cs h; simp [Cache.empty] at h
   trans := by intro r k; left; rfl
   start := by intro kd a; left; rfl
   idx := by simp [Cache.empty]
-  row0 := by intro _; simp [Cache.empty]
-  row0st := by intro cs h; simp [Cache.empty] at h
+  accel := by intro i cs h; simp [Cache.empty] at h
 
 /-! ### list plumbing -/
 
@@ -197,7 +373,7 @@ theorem getD_some_lt {l : List (Option CState)} {i : Nat} {cs : CState} (h : l.g
   · exact hlt
   · simp [List.getD_eq_getElem?_getD, List.getElem?_eq_none (Nat.le_of_not_lt hlt)] at h
 
-theorem findKey_spec {c : Cache} {key : List Nat × Bool × Bool} {ex : CState} (h : c.findKey key = some ex) :
+theorem findKey_spec {c : Cache} {key : List Nat × Bool × Bool × Bool × Bool} {ex : CState} (h : c.findKey key = some ex) :
     ex.st.key = key ∧ ∃ i, c.list.getD i none = some ex := by
   unfold Cache.findKey at h
   obtain ⟨o, ho, hf⟩ := List.exists_of_findSome?_eq_some h
@@ -213,11 +389,6 @@ theorem findKey_spec {c : Cache} {key : List Nat × Bool × Bool} {ex : CState} 
       exact ⟨i, by simp [List.getD_eq_getElem?_getD, List.getElem?_eq_getElem hi, hget]⟩
     · cases hf
 
-theorem key_eq {S T : DState} (h : S.key = T.key) : S.nfa = T.nfa ∧ S.isMatch = T.isMatch := by
-  unfold DState.key at h
-  simp only [Prod.mk.injEq] at h
-  exact ⟨h.1, h.2.2⟩
-
 /-! ### the cache operations preserve the invariant -/
 
 theorem inv_setTrans {N : NFA} {cfg : Config} {c : Cache} (hI : Inv N cfg c) {row k : Nat} {t : Sid} {S : CState}
@@ -227,7 +398,7 @@ theorem inv_setTrans {N : NFA} {cfg : Config} {c : Cache} (hI : Inv N cfg c) {ro
   rw [if_pos hlt]
   have hext : Ext c { c with trans := fun r k' => if r = row ∧ k' = k then t else c.trans r k' } :=
     fun i cs h => ⟨cs, h, rfl⟩
-  refine ⟨hI.ids, ?_, hI.start, hI.idx, hI.row0, hI.row0st⟩
+  refine ⟨hI.ids, ?_, hI.start, hI.idx, hI.accel⟩
   intro r k'
   simp only
   by_cases hrk : r = row ∧ k' = k
@@ -242,12 +413,6 @@ theorem inv_setTrans {N : NFA} {cfg : Config} {c : Cache} (hI : Inv N cfg c) {ro
 theorem setTrans_list (c : Cache) (row k : Nat) (t : Sid) : (c.setTrans row k t).list = c.list := by
   unfold Cache.setTrans; split <;> rfl
 
-theorem setTrans_clearCount (c : Cache) (row k : Nat) (t : Sid) : (c.setTrans row k t).clearCount = c.clearCount := by
-  unfold Cache.setTrans; split <;> rfl
-
-theorem ext_setTrans (c : Cache) (row k : Nat) (t : Sid) : Ext c (c.setTrans row k t) := by
-  intro i cs h; exact ⟨cs, by rw [setTrans_list]; exact h, rfl⟩
-
 theorem insertNew_eqs {cfg : Config} {c : Cache} {st : DState} {cs : CState} {c1 : Cache}
     (h : c.insertNew cfg st = some (cs, c1)) :
     cs = { id := { off := c.nextIdx, mtch := st.isMatch }, st := st } ∧ c1.list = setAt c.list c.nextIdx cs ∧
@@ -261,7 +426,7 @@ theorem insertNew_eqs {cfg : Config} {c : Cache} {st : DState} {cs : CState} {c1
 
 theorem insertNew_spec {N : NFA} {cfg : Config} {c : Cache} (hI : Inv N cfg c) {st : DState} {cs : CState} {c1 : Cache}
     (h : c.insertNew cfg st = some (cs, c1)) :
-    Inv N cfg c1 ∧ Ext c c1 ∧ cs.st = st ∧ c1.list.getD cs.id.off none = some cs ∧ c1.clearCount = c.clearCount := by
+    Inv N cfg c1 ∧ Ext c c1 ∧ cs.st = st ∧ c1.list.getD cs.id.off none = some cs := by
   obtain ⟨hcs, hl, htr, hsta, hnx, hcc⟩ := insertNew_eqs h
   have hlen := hI.idx.2
   have hget : ∀ j, c1.list.getD j none = if j = c.nextIdx then some cs else c.list.getD j none := by
@@ -273,7 +438,7 @@ theorem insertNew_spec {N : NFA} {cfg : Config} {c : Cache} (hI : Inv N cfg c) {
     refine ⟨cs', ?_, rfl⟩
     rw [hget, if_neg (by omega)]
     exact hcs'
-  refine ⟨⟨?_, ?_, ?_, ?_, ?_, ?_⟩, hext, by rw [hcs], ?_, hcc⟩
+  refine ⟨⟨?_, ?_, ?_, ?_, ?_⟩, hext, by rw [hcs], ?_⟩
   · intro i cs' hcs'
     rw [hget] at hcs'
     split at hcs'
@@ -296,13 +461,13 @@ theorem insertNew_spec {N : NFA} {cfg : Config} {c : Cache} (hI : Inv N cfg c) {
       exact Or.inr ⟨h1, h2, T', hT', by rw [hst]; exact hn⟩
   · rw [hnx, hl, length_setAt _ _ _ hlen]
     omega
-  · intro h0
-    rw [hcc] at h0
-    rw [hget, if_neg (by have := hI.idx.1; omega)]
-    exact hI.row0 h0
-  · intro cs0 h0
-    rw [hget, if_neg (by have := hI.idx.1; omega)] at h0
-    exact hI.row0st cs0 h0
+  · intro i cs' hcs' hne
+    rw [hget] at hcs'
+    split at hcs'
+    · cases hcs'
+      rw [hcs] at hne
+      exact absurd rfl hne
+    · exact hI.accel i cs' hcs' hne
   · rw [hget, hoff]
     simp
 
@@ -316,12 +481,11 @@ theorem tagStart_eqs (c : Cache) (cs : CState) (kind : StartKind) (anch : Bool) 
 
 theorem tagStart_spec {N : NFA} {cfg : Config} {c : Cache} (hI : Inv N cfg c) {cs : CState} {i : Nat}
     (hcs : c.list.getD i none = some cs) (kind : StartKind) (anch : Bool)
-    (hn : cs.st.nfa = (startState N kind anch).nfa) :
+    (hn : cs.st = startState N kind anch) :
     Inv N cfg (c.tagStart cs kind anch).2 ∧ Ext c (c.tagStart cs kind anch).2 ∧
     (c.tagStart cs kind anch).2.list.getD (c.tagStart cs kind anch).1.id.off none = some (c.tagStart cs kind anch).1 ∧
     (c.tagStart cs kind anch).1.st = cs.st ∧ (c.tagStart cs kind anch).1.id.inv = false ∧
-    (c.tagStart cs kind anch).1.id.dead = false ∧
-    (c.tagStart cs kind anch).2.clearCount = c.clearCount := by
+    (c.tagStart cs kind anch).1.id.dead = false := by
   obtain ⟨hoff, hinv, hdead, hm⟩ := hI.ids i cs hcs
   have hlt := getD_some_lt hcs
   subst hoff
@@ -330,6 +494,7 @@ theorem tagStart_spec {N : NFA} {cfg : Config} {c : Cache} (hI : Inv N cfg c) {c
   generalize (c.tagStart cs kind anch).2 = c1 at *
   have hoff' : cs'.id.off = cs.id.off := by rw [e1]
   have hst' : cs'.st = cs.st := by rw [e1]
+  have hacc' : cs'.accel = cs.accel := by rw [e1]
   have hget : ∀ j, c1.list.getD j none = if j = cs.id.off then some cs' else c.list.getD j none := by
     intro j
     rw [el, getD_set_list]
@@ -345,7 +510,7 @@ theorem tagStart_spec {N : NFA} {cfg : Config} {c : Cache} (hI : Inv N cfg c) {c
       cases hj
       exact ⟨cs', by simp, hst'⟩
     · exact ⟨cs2, by rw [if_neg hjo]; exact hj, rfl⟩
-  refine ⟨⟨?_, ?_, ?_, ?_, ?_, ?_⟩, hext, ?_, hst', by rw [e1]; exact hinv, by rw [e1]; exact hdead, ecc⟩
+  refine ⟨⟨?_, ?_, ?_, ?_, ?_⟩, hext, ?_, hst', by rw [e1]; exact hinv, by rw [e1]; exact hdead⟩
   · intro j cs2 hj
     rw [hget] at hj
     split at hj
@@ -376,25 +541,13 @@ theorem tagStart_spec {N : NFA} {cfg : Config} {c : Cache} (hI : Inv N cfg c) {c
         exact Or.inr ⟨h1, h2, T', hT', by rw [hst]; exact hn'⟩
   · rw [enx, el, List.length_set]
     exact hI.idx
-  · intro h0
-    rw [ecc] at h0
-    have := hI.row0 h0
-    rw [hget]
-    by_cases h0o : 0 = cs.id.off
-    · rw [← h0o] at hcs
-      rw [this] at hcs
-      cases hcs
-    · rw [if_neg h0o]; exact this
-  · intro cs0 h0
-    rw [hget] at h0
-    by_cases h0o : 0 = cs.id.off
-    · rw [if_pos h0o] at h0
-      cases h0
-      rw [hst']
-      rw [← h0o] at hcs
-      exact hI.row0st cs hcs
-    · rw [if_neg h0o] at h0
-      exact hI.row0st cs0 h0
+  · intro j cs2 hj hne
+    rw [hget] at hj
+    split at hj
+    · cases hj
+      rw [hacc'] at hne
+      exact (hI.accel _ cs hcs hne).congr hst' hacc'
+    · exact hI.accel j cs2 hj hne
   · rw [hget, hoff']
     simp
 
@@ -419,24 +572,75 @@ theorem inv_clearRebuild (N : NFA) (cfg : Config) (c : Cache) : Inv N cfg (clear
     · rw [if_neg hk]
       left; rfl
   idx := by simp [clearRebuild]
-  row0 := by intro h; simp [clearRebuild] at h
-  row0st := by
-    intro cs h
-    simp [clearRebuild] at h
-    subst h
-    rfl
+  accel := by
+    intro i cs h hne
+    unfold clearRebuild at h
+    simp only at h
+    match i with
+    | 0 => simp at h; subst h; exact absurd rfl hne
+    | i+1 => simp at h
 
 /-! ### `determinize` -/
+
+/-- the new state looked up in / inserted into a cache: the invariant survives and the result names that very state -/
+theorem place_spec {N : NFA} {cfg : Config} {c : Cache} (hI : Inv N cfg c) (T : DState) :
+    (∀ ex, c.findKey T.key = some ex → ex.st = T ∧ c.list.getD ex.id.off none = some ex) ∧
+    (∀ cs c1, c.insertNew cfg T = some (cs, c1) → Inv N cfg c1 ∧ cs.st = T ∧ c1.list.getD cs.id.off none = some cs) := by
+  constructor
+  · intro ex hf
+    obtain ⟨hkey, j, hj⟩ := findKey_spec hf
+    obtain ⟨hjoff, _, _, _⟩ := hI.ids j ex hj
+    exact ⟨key_eq hkey, by rw [hjoff]; exact hj⟩
+  · intro cs c1 hi
+    obtain ⟨h1, _, h3, h4⟩ := insertNew_spec hI hi
+    exact ⟨h1, h3, h4⟩
+
+theorem afterClear_spec {N : NFA} {cfg : Config} (c : Cache) (hI : Inv N cfg c) (T : DState) :
+    ∀ r c1, afterClear N cfg c T = (r, c1) →
+      Inv N cfg c1 ∧
+      (match r with
+       | .dead => False
+       | .next cs => cs.st = T ∧ c1.list.getD cs.id.off none = some cs
+       | .fail => True) := by
+  intro r c1 hd
+  unfold afterClear at hd
+  split at hd
+  · simp only [Prod.mk.injEq] at hd
+    obtain ⟨rfl, rfl⟩ := hd
+    exact ⟨hI, trivial⟩
+  · have hI1 := inv_clearRebuild N cfg c
+    obtain ⟨p1, p2⟩ := place_spec hI1 T
+    simp only at hd
+    cases hf : (clearRebuild N c).findKey T.key with
+    | some ex =>
+      rw [hf] at hd
+      simp only [Prod.mk.injEq] at hd
+      obtain ⟨rfl, rfl⟩ := hd
+      exact ⟨hI1, p1 ex hf⟩
+    | none =>
+      rw [hf] at hd
+      simp only at hd
+      cases hi : (clearRebuild N c).insertNew cfg T with
+      | some p =>
+        obtain ⟨cs, c2⟩ := p
+        rw [hi] at hd
+        simp only [Prod.mk.injEq] at hd
+        obtain ⟨rfl, rfl⟩ := hd
+        obtain ⟨q1, q2, q3⟩ := p2 cs c2 hi
+        exact ⟨q1, q2, q3⟩
+      | none =>
+        rw [hi] at hd
+        simp only [Prod.mk.injEq] at hd
+        obtain ⟨rfl, rfl⟩ := hd
+        exact ⟨hI1, trivial⟩
 
 theorem determinize_spec {N : NFA} {cfg : Config} {c : Cache} (hI : Inv N cfg c) (hC : ClassSound N cfg) {cur : CState}
     {i : Nat} (hcur : c.list.getD i none = some cur) {b : Nat} (hb : b < 256) :
     ∀ r c1, determinize N cfg c cur b = (r, c1) →
       Inv N cfg c1 ∧
       (match r with
-       | .dead => step N cfg cur.st b = .dead ∧ Ext c c1
-       | .next cs => (∃ T, step N cfg cur.st b = .next T ∧ T.nfa = cs.st.nfa ∧ T.isMatch = cs.st.isMatch) ∧
-           c1.list.getD cs.id.off none = some cs ∧ Ext c c1
-       | .cleared => True
+       | .dead => step N cfg cur.st b = .dead
+       | .next cs => step N cfg cur.st b = .next cs.st ∧ c1.list.getD cs.id.off none = some cs
        | .fail => True) := by
   intro r c1 hd
   obtain ⟨hoff, _, _, _⟩ := hI.ids i cur hcur
@@ -446,7 +650,7 @@ theorem determinize_spec {N : NFA} {cfg : Config} {c : Cache} (hI : Inv N cfg c)
     rw [hs] at hd
     simp only [Prod.mk.injEq] at hd
     obtain ⟨rfl, rfl⟩ := hd
-    refine ⟨?_, rfl, ext_setTrans _ _ _ _⟩
+    refine ⟨?_, rfl⟩
     rw [hoff]
     apply inv_setTrans hI hcur
     left
@@ -467,16 +671,16 @@ theorem determinize_spec {N : NFA} {cfg : Config} {c : Cache} (hI : Inv N cfg c)
       simp only [Prod.mk.injEq] at hd
       obtain ⟨rfl, rfl⟩ := hd
       obtain ⟨hkey, j, hj⟩ := findKey_spec hf
-      obtain ⟨hn, hm⟩ := key_eq hkey
+      have hex : ex.st = T := key_eq hkey
       obtain ⟨hjoff, hjinv, hjdead, hjm⟩ := hI.ids j ex hj
-      refine ⟨?_, ⟨T, rfl, hn.symm, hm.symm⟩, ?_, ext_setTrans _ _ _ _⟩
+      refine ⟨?_, by rw [hex], ?_⟩
       · rw [hoff]
         apply inv_setTrans hI hcur
         right
         refine ⟨hjinv, hjdead, ex, by rw [hjoff]; exact hj, hjm, ?_⟩
         intro b' hb' hk
-        obtain ⟨T', hT', h1, h2⟩ := (hC cur.st b b' hb hb' hk.symm).2 T hs
-        exact ⟨T', hT', by rw [h1, hn], by rw [h2, hm]⟩
+        obtain ⟨T', hT', he⟩ := (hC cur.st b b' hb hb' hk.symm).2 T hs
+        exact ⟨T', hT', by rw [hex]; exact he⟩
       · rw [setTrans_list, hjoff]; exact hj
     | none =>
       rw [hf] at hd
@@ -487,39 +691,65 @@ theorem determinize_spec {N : NFA} {cfg : Config} {c : Cache} (hI : Inv N cfg c)
         rw [hi] at hd
         simp only [Prod.mk.injEq] at hd
         obtain ⟨rfl, rfl⟩ := hd
-        obtain ⟨hI2, hext, hst, hget, _⟩ := insertNew_spec hI hi
+        obtain ⟨hI2, hext, hst, hget⟩ := insertNew_spec hI hi
         obtain ⟨cur', hcur', hcst⟩ := hext _ _ hcur
-        obtain ⟨hoff', _, _, _⟩ := hI2.ids i cur' hcur'
         obtain ⟨_, hcinv, hcdead, hcm⟩ := hI2.ids _ cs hget
-        refine ⟨?_, ⟨T, rfl, by rw [hst], by rw [hst]⟩, ?_, hext.trans (ext_setTrans _ _ _ _)⟩
+        refine ⟨?_, by rw [hst], ?_⟩
         · rw [hoff]
           apply inv_setTrans hI2 hcur'
           right
           refine ⟨hcinv, hcdead, cs, hget, hcm, ?_⟩
           intro b' hb' hk
           rw [hcst]
-          obtain ⟨T', hT', h1, h2⟩ := (hC cur.st b b' hb hb' hk.symm).2 T hs
-          exact ⟨T', hT', by rw [h1, hst], by rw [h2, hst]⟩
+          obtain ⟨T', hT', he⟩ := (hC cur.st b b' hb hb' hk.symm).2 T hs
+          exact ⟨T', hT', by rw [hst]; exact he⟩
         · rw [setTrans_list]; exact hget
       | none =>
         rw [hi] at hd
         simp only at hd
-        split at hd
-        · simp only [Prod.mk.injEq] at hd
-          obtain ⟨rfl, rfl⟩ := hd
-          exact ⟨hI, trivial⟩
-        · simp only [Prod.mk.injEq] at hd
-          obtain ⟨rfl, rfl⟩ := hd
-          exact ⟨inv_clearRebuild N cfg c, trivial⟩
+        obtain ⟨hI1, hr⟩ := afterClear_spec c hI T r c1 hd
+        refine ⟨hI1, ?_⟩
+        cases r with
+        | dead => exact hr.elim
+        | next cs => simp only at hr ⊢; exact ⟨by rw [hr.1], hr.2⟩
+        | fail => trivial
 
 /-! ### `getStartState` -/
 
+theorem putStart_spec {N : NFA} {cfg : Config} {c : Cache} (hI : Inv N cfg c) (kind : StartKind) (anch : Bool) :
+    ∀ cur c1, c.putStart cfg (startState N kind anch) kind anch = some (cur, c1) →
+      Inv N cfg c1 ∧ cur.st = startState N kind anch ∧ cur.id.inv = false ∧ cur.id.dead = false ∧
+        c1.list.getD cur.id.off none = some cur := by
+  intro cur c1 hp
+  unfold Cache.putStart at hp
+  cases hf : c.findKey (startState N kind anch).key with
+  | some ex =>
+    rw [hf] at hp
+    simp only [Option.some.injEq] at hp
+    obtain ⟨hkey, j, hj⟩ := findKey_spec hf
+    have hex := key_eq hkey
+    obtain ⟨i1, _, i3, i4, i5, i6⟩ := tagStart_spec hI hj kind anch hex
+    rw [hp] at i1 i3 i4 i5 i6
+    exact ⟨i1, by rw [i4]; exact hex, i5, i6, i3⟩
+  | none =>
+    rw [hf] at hp
+    simp only at hp
+    cases hi : c.insertNew cfg (startState N kind anch) with
+    | none => rw [hi] at hp; cases hp
+    | some p =>
+      obtain ⟨cs, c2⟩ := p
+      rw [hi] at hp
+      simp only [Option.some.injEq] at hp
+      obtain ⟨hI2, _, hst, hget⟩ := insertNew_spec hI hi
+      obtain ⟨i1, _, i3, i4, i5, i6⟩ := tagStart_spec hI2 hget kind anch hst
+      rw [hp] at i1 i3 i4 i5 i6
+      exact ⟨i1, by rw [i4]; exact hst, i5, i6, i3⟩
+
 theorem getStart_spec {N : NFA} {cfg : Config} {c : Cache} (hI : Inv N cfg c) (h : Bytes) (pos : Nat) (anch : Bool) :
     ∀ ocur c1, getStart N cfg c h pos anch = (ocur, c1) →
-      Inv N cfg c1 ∧ Ext c c1 ∧ c1.clearCount = c.clearCount ∧
-      (∀ cur, ocur = some cur → cur.st.nfa = (startState N (kindAt h pos) anch).nfa ∧
-        ((cur.id = Sid.invalid ∧ c1 = c) ∨
-         (cur.id.inv = false ∧ cur.id.dead = false ∧ c1.list.getD cur.id.off none = some cur))) := by
+      Inv N cfg c1 ∧
+      (∀ cur, ocur = some cur → cur.st = startState N (kindAt h pos) anch ∧
+         cur.id.inv = false ∧ cur.id.dead = false ∧ c1.list.getD cur.id.off none = some cur) := by
   intro ocur c1 hg
   unfold getStart at hg
   simp only at hg
@@ -528,7 +758,7 @@ theorem getStart_spec {N : NFA} {cfg : Config} {c : Cache} (hI : Inv N cfg c) (h
     rename_i hid
     simp only [Prod.mk.injEq] at hg
     obtain ⟨rfl, rfl⟩ := hg
-    refine ⟨hI, Ext.refl _, rfl, ?_⟩
+    refine ⟨hI, ?_⟩
     intro cur hcur
     rcases hI.start (kindAt h pos) anch with hinv | ⟨h1, h2, T, hT, hn⟩
     · exact absurd hinv hid
@@ -539,123 +769,91 @@ theorem getStart_spec {N : NFA} {cfg : Config} {c : Cache} (hI : Inv N cfg c) (h
       rw [hgs] at hcur
       cases hcur
       obtain ⟨hoff, hi, hd, _⟩ := hI.ids _ _ hT
-      exact ⟨hn, Or.inr ⟨hi, hd, by rw [hoff]; exact hT⟩⟩
-  · cases hf : c.findKey (startState N (kindAt h pos) anch).key with
-    | some ex =>
-      rw [hf] at hg
+      exact ⟨hn, hi, hd, by rw [hoff]; exact hT⟩
+  · cases hp : c.putStart cfg (startState N (kindAt h pos) anch) (kindAt h pos) anch with
+    | some r =>
+      rw [hp] at hg
       simp only [Prod.mk.injEq] at hg
       obtain ⟨rfl, rfl⟩ := hg
-      obtain ⟨hkey, j, hj⟩ := findKey_spec hf
-      obtain ⟨hn, _⟩ := key_eq hkey
-      obtain ⟨i1, i2, i3, i4, i5, i6, i7⟩ := tagStart_spec hI hj (kindAt h pos) anch hn
-      refine ⟨i1, i2, i7, ?_⟩
+      obtain ⟨i1, i2, i3, i4, i5⟩ := putStart_spec hI (kindAt h pos) anch r.1 r.2 hp
+      refine ⟨i1, ?_⟩
       intro cur hcur
       cases hcur
-      exact ⟨by rw [i4]; exact hn, Or.inr ⟨i5, i6, i3⟩⟩
+      exact ⟨i2, i3, i4, i5⟩
     | none =>
-      rw [hf] at hg
+      rw [hp] at hg
       simp only at hg
-      cases hi : c.insertNew cfg (startState N (kindAt h pos) anch) with
-      | none =>
-        rw [hi] at hg
-        simp only [Prod.mk.injEq] at hg
+      split at hg
+      · simp only [Prod.mk.injEq] at hg
         obtain ⟨rfl, rfl⟩ := hg
-        refine ⟨hI, Ext.refl _, rfl, ?_⟩
-        intro cur hcur
-        cases hcur
-        exact ⟨rfl, Or.inl ⟨rfl, rfl⟩⟩
-      | some p =>
-        obtain ⟨cs, c2⟩ := p
-        rw [hi] at hg
-        simp only [Prod.mk.injEq] at hg
-        obtain ⟨rfl, rfl⟩ := hg
-        obtain ⟨hI2, hext, hst, hget, hcc⟩ := insertNew_spec hI hi
-        obtain ⟨i1, i2, i3, i4, i5, i6, i7⟩ := tagStart_spec hI2 hget (kindAt h pos) anch (by rw [hst])
-        refine ⟨i1, hext.trans i2, by rw [i7, hcc], ?_⟩
-        intro cur hcur
-        cases hcur
-        exact ⟨by rw [i4, hst], Or.inr ⟨i5, i6, i3⟩⟩
-
-/-! ### without `^` / `\A` states the start state does not depend on the look-behind kind -/
-
-theorem succs_noStart {N : NFA} (hns : noStartLookB N = true) (k1 k2 : StartKind) (q : Nat) :
-    succs N (lookOfKind k1) q = succs N (lookOfKind k2) q := by
-  unfold succs
-  cases hq : N.get q with
-  | look k nx =>
-    have hf : hasLookWhere N (fun k => k == .startText || k == .startLine) = false := by
-      unfold noStartLookB at hns; simpa using hns
-    have hk := hasLookWhere_false hf hq
-    simp only [Bool.or_eq_false_iff, beq_eq_false_iff_ne, ne_eq] at hk
-    have h1 : ∀ kd : StartKind, (lookOfKind kd).contains k = false := by
-      intro kd
-      cases k <;> cases kd <;> simp_all [lookOfKind, LookSet.contains]
-    simp only [h1]
-  | _ => rfl
-
-theorem closureInto_congr {N : NFA} {lk1 lk2 : LookSet} (hs : ∀ q, succs N lk1 q = succs N lk2 q) :
-    ∀ (fuel : Nat) (st res : List Nat), closureInto N lk1 fuel st res = closureInto N lk2 fuel st res := by
-  intro fuel
-  induction fuel with
-  | zero => intro st res; rfl
-  | succ fuel ih =>
-    intro st res
-    cases st with
-    | nil => rfl
-    | cons q st =>
-      simp only [closureInto]
-      split
-      · exact ih st res
-      · rw [hs q]; exact ih _ _
-
-theorem startState_noStart {N : NFA} (hns : noStartLookB N = true) (k1 k2 : StartKind) (a : Bool) :
-    (startState N k1 a).nfa = (startState N k2 a).nfa := by
-  simp only [startState, epsilonClosure, List.foldl, closeSeed]
-  exact closureInto_congr (succs_noStart hns k1 k2) _ _ _
+        exact ⟨hI, fun cur hcur => by cases hcur⟩
+      · have hI1 := inv_clearRebuild N cfg c
+        cases hp2 : (clearRebuild N c).putStart cfg (startState N (kindAt h pos) anch) (kindAt h pos) anch with
+        | some r =>
+          rw [hp2] at hg
+          simp only [Prod.mk.injEq] at hg
+          obtain ⟨rfl, rfl⟩ := hg
+          obtain ⟨i1, i2, i3, i4, i5⟩ := putStart_spec hI1 (kindAt h pos) anch r.1 r.2 hp2
+          refine ⟨i1, ?_⟩
+          intro cur hcur
+          cases hcur
+          exact ⟨i2, i3, i4, i5⟩
+        | none =>
+          rw [hp2] at hg
+          simp only [Prod.mk.injEq] at hg
+          obtain ⟨rfl, rfl⟩ := hg
+          exact ⟨hI1, fun cur hcur => by cases hcur⟩
 
 /-! ### the run is at a state equivalent to the uncached one -/
 
-/-- the id `sid` names a cached state whose NFA-state list is that of `S` -/
-def AtState (c : Cache) (sid : Sid) (S : DState) : Prop :=
-  sid.inv = false ∧ sid.dead = false ∧ ∃ cs, c.list.getD sid.off none = some cs ∧ cs.st.nfa = S.nfa
+/-- the id `sid` names a cached state equivalent to `S`, and carries its match tag -/
+def AtState (N : NFA) (c : Cache) (sid : Sid) (S : DState) : Prop :=
+  sid.inv = false ∧ sid.dead = false ∧ sid.mtch = S.isMatch ∧
+    ∃ cs, c.list.getD sid.off none = some cs ∧ Eqv N cs.st S
 
-theorem AtState.getState {c : Cache} {sid : Sid} {S : DState} (h : AtState c sid S) :
-    ∃ cs, c.getState sid = some cs ∧ c.list.getD sid.off none = some cs ∧ cs.st.nfa = S.nfa := by
-  obtain ⟨h1, h2, cs, hcs, hn⟩ := h
+theorem AtState.getState {N : NFA} {c : Cache} {sid : Sid} {S : DState} (h : AtState N c sid S) :
+    ∃ cs, c.getState sid = some cs ∧ c.list.getD sid.off none = some cs ∧ Eqv N cs.st S := by
+  obtain ⟨h1, h2, _, cs, hcs, hn⟩ := h
   refine ⟨cs, ?_, hcs, hn⟩
   unfold Cache.getState
   simp only [h1, h2, Bool.or_self, Bool.false_eq_true, ↓reduceIte]
   exact hcs
 
-theorem AtState.lookupT {c : Cache} {sid : Sid} {S : DState} (h : AtState c sid S) (k : Nat) :
+theorem AtState.lookupT {N : NFA} {c : Cache} {sid : Sid} {S : DState} (h : AtState N c sid S) (k : Nat) :
     c.lookupT sid.off k = c.trans sid.off k := by
-  obtain ⟨_, _, cs, hcs, _⟩ := h
+  obtain ⟨_, _, _, cs, hcs, _⟩ := h
   unfold Cache.lookupT Cache.rows
   rw [if_pos (getD_some_lt hcs)]
 
-theorem AtState.ext {c c' : Cache} {sid : Sid} {S : DState} (h : AtState c sid S) (he : Ext c c') : AtState c' sid S := by
-  obtain ⟨h1, h2, cs, hcs, hn⟩ := h
+theorem AtState.ext {N : NFA} {c c' : Cache} {sid : Sid} {S : DState} (h : AtState N c sid S) (he : Ext c c') :
+    AtState N c' sid S := by
+  obtain ⟨h1, h2, h3, cs, hcs, hn⟩ := h
   obtain ⟨cs', hcs', hst⟩ := he _ _ hcs
-  exact ⟨h1, h2, cs', hcs', by rw [hst]; exact hn⟩
+  exact ⟨h1, h2, h3, cs', hcs', by rw [hst]; exact hn⟩
+
+/-- the id of a state object names it -/
+theorem atState_of_get {N : NFA} {cfg : Config} {c : Cache} (hI : Inv N cfg c) {cs : CState}
+    (hget : c.list.getD cs.id.off none = some cs) : AtState N c cs.id cs.st := by
+  obtain ⟨_, ci, cd, cm⟩ := hI.ids _ _ hget
+  exact ⟨ci, cd, cm, cs, hget, Eqv.refl N _⟩
 
 /-- a non-invalid table entry of the current state describes the uncached step -/
-theorem follow {N : NFA} {cfg : Config} {c : Cache} (hW : hasWB N = false) (hI : Inv N cfg c) {sid : Sid} {S : DState}
-    (hat : AtState c sid S) {b : Nat} (hb : b < 256) (hne : c.trans sid.off (cfg.cls b) ≠ Sid.invalid) :
+theorem follow {N : NFA} {cfg : Config} {c : Cache} (hI : Inv N cfg c) {sid : Sid} {S : DState}
+    (hat : AtState N c sid S) {b : Nat} (hb : b < 256) (hne : c.trans sid.off (cfg.cls b) ≠ Sid.invalid) :
     (c.trans sid.off (cfg.cls b) = Sid.deadS ∧ step N cfg S b = .dead) ∨
     (c.trans sid.off (cfg.cls b) ≠ Sid.deadS ∧
-      ∃ T', step N cfg S b = .next T' ∧ AtState c (c.trans sid.off (cfg.cls b)) T' ∧
-        T'.isMatch = (c.trans sid.off (cfg.cls b)).mtch) := by
-  obtain ⟨_, _, cs, hcs, hn⟩ := hat
+      ∃ T', step N cfg S b = .next T' ∧ AtState N c (c.trans sid.off (cfg.cls b)) T') := by
+  obtain ⟨_, _, _, cs, hcs, hn⟩ := hat
   rcases hI.trans sid.off (cfg.cls b) with h | ⟨S0, hS0, hok⟩
   · exact absurd h hne
   · rw [hcs] at hS0
     cases hS0
     rcases hok with ⟨hd, hall⟩ | ⟨h1, h2, T, hT, hm, hall⟩
     · left
-      exact ⟨hd, by rw [← step_congr hW cfg hn]; exact hall b hb rfl⟩
+      exact ⟨hd, by rw [← step_congr cfg hn]; exact hall b hb rfl⟩
     · right
-      obtain ⟨T', hs, hn', hm'⟩ := hall b hb rfl
-      refine ⟨?_, T', by rw [← step_congr hW cfg hn]; exact hs, ⟨h1, h2, T, hT, hn'.symm⟩, by rw [hm', hm]⟩
+      obtain ⟨T', hs, he⟩ := hall b hb rfl
+      refine ⟨?_, T', by rw [← step_congr cfg hn]; exact hs, ⟨h1, h2, by rw [hm]; exact he.2.1.symm, T, hT, he.symm⟩⟩
       intro hd
       rw [hd] at h2
       simp [Sid.deadS] at h2
@@ -672,7 +870,7 @@ theorem getState_some {c : Cache} {sid : Sid} {cur : CState} (h : c.getState sid
   · cases h
   · exact h
 
-/-! ### acceleration detection touches only the acceleration fields of a state object -/
+/-! ### acceleration detection: touches only the acceleration fields of a state object, and is exact -/
 
 /-- replace the state object in slot `i` -/
 def Cache.replace (c : Cache) (i : Nat) (cs : CState) : Cache := { c with list := c.list.set i (some cs) }
@@ -688,7 +886,8 @@ theorem replace_getD {c : Cache} {i : Nat} {cs cs' : CState} (hcs : c.list.getD 
   · simp [hj]
 
 theorem inv_replace {N : NFA} {cfg : Config} {c : Cache} (hI : Inv N cfg c) {i : Nat} {cs cs' : CState}
-    (hcs : c.list.getD i none = some cs) (hst : cs'.st = cs.st) (hid : cs'.id = cs.id) :
+    (hcs : c.list.getD i none = some cs) (hst : cs'.st = cs.st) (hid : cs'.id = cs.id)
+    (hacc : cs'.accel ≠ [] → AccelOK N cfg cs') :
     Inv N cfg (c.replace i cs') ∧ Ext c (c.replace i cs') := by
   have hget := replace_getD (cs' := cs') hcs
   have hext : Ext c (c.replace i cs') := by
@@ -700,7 +899,7 @@ theorem inv_replace {N : NFA} {cfg : Config} {c : Cache} (hI : Inv N cfg c) {i :
       cases hj
       exact ⟨cs', by simp, hst⟩
     · exact ⟨cs2, by rw [if_neg hji]; exact hj, rfl⟩
-  refine ⟨⟨?_, ?_, ?_, ?_, ?_, ?_⟩, hext⟩
+  refine ⟨⟨?_, ?_, ?_, ?_, ?_⟩, hext⟩
   · intro j cs2 hj
     rw [hget] at hj
     split at hj
@@ -725,35 +924,82 @@ theorem inv_replace {N : NFA} {cfg : Config} {c : Cache} (hI : Inv N cfg c) {i :
   · show 1 ≤ c.nextIdx ∧ (c.list.set i (some cs')).length ≤ c.nextIdx
     rw [List.length_set]
     exact hI.idx
-  · intro h0
-    have h0' : c.clearCount = 0 := h0
-    have := hI.row0 h0'
-    rw [hget]
-    by_cases h0i : 0 = i
-    · rw [← h0i, this] at hcs; cases hcs
-    · rw [if_neg h0i]; exact this
-  · intro cs0 h0
-    rw [hget] at h0
-    by_cases h0i : 0 = i
-    · rw [if_pos h0i] at h0
-      cases h0
-      rw [hst]
-      rw [← h0i] at hcs
-      exact hI.row0st cs hcs
-    · rw [if_neg h0i] at h0
-      exact hI.row0st cs0 h0
+  · intro j cs2 hj hne
+    rw [hget] at hj
+    split at hj
+    · cases hj; exact hacc hne
+    · exact hI.accel j cs2 hj hne
+
+/-- `detectAccelExact` only reports exit bytes when every other byte provably loops back to the state -/
+theorem detectAccelExact_ok {N : NFA} {cfg : Config} {c : Cache} (hI : Inv N cfg c) {i : Nat} {cs : CState}
+    (hcs : c.list.getD i none = some cs) (hne : detectAccelExact cfg c cs.id ≠ []) :
+    ∀ b, b < 256 → (detectAccelExact cfg c cs.id).contains b = false →
+      ∃ T, step N cfg cs.st b = .next T ∧ Eqv N T cs.st := by
+  obtain ⟨hoff, hinv, hdead, _⟩ := hI.ids i cs hcs
+  intro b hb hnc
+  unfold detectAccelExact at hne hnc
+  split at hne
+  · exact absurd rfl hne
+  · split at hne
+    · exact absurd rfl hne
+    · split at hne
+      · exact absurd rfl hne
+      · rename_i h1 h2 h3
+        rw [if_neg h1, if_neg h2, if_neg h3] at hnc
+        simp only at hne hnc
+        split at hne
+        · exact absurd rfl hne
+        · rename_i h4
+          rw [if_neg h4] at hnc
+          -- `b` is not among the filtered bytes
+          have hnm : b ∉ (List.range 256).filter (fun b =>
+              decide (cfg.cls b ≥ cfg.stride) || (c.trans cs.id.off (cfg.cls b)).dead ||
+                (c.trans cs.id.off (cfg.cls b)).off != cs.id.off) := by
+            intro hm
+            have : ((List.range 256).filter (fun b =>
+              decide (cfg.cls b ≥ cfg.stride) || (c.trans cs.id.off (cfg.cls b)).dead ||
+                (c.trans cs.id.off (cfg.cls b)).off != cs.id.off)).contains b = true := by
+              simpa using hm
+            rw [this] at hnc
+            cases hnc
+          rw [List.mem_filter] at hnm
+          have hpred : ¬ ((decide (cfg.cls b ≥ cfg.stride) || (c.trans cs.id.off (cfg.cls b)).dead ||
+                (c.trans cs.id.off (cfg.cls b)).off != cs.id.off) = true) :=
+            fun hp => hnm ⟨List.mem_range.mpr hb, hp⟩
+          simp only [Bool.or_eq_true, decide_eq_true_eq, bne_iff_ne, ne_eq, not_or, Decidable.not_not] at hpred
+          obtain ⟨⟨hk, hdd⟩, hoo⟩ := hpred
+          have hklt : cfg.cls b < cfg.stride := by omega
+          -- the entry is known
+          have hninv : (c.trans cs.id.off (cfg.cls b)).inv = false := by
+            have hall : ¬ ((List.range cfg.stride).any (fun k => (c.trans cs.id.off k).inv) = true) := h3
+            rw [List.any_eq_true] at hall
+            cases hx : (c.trans cs.id.off (cfg.cls b)).inv with
+            | false => rfl
+            | true => exact absurd ⟨cfg.cls b, List.mem_range.mpr hklt, hx⟩ hall
+          rw [hoff] at hninv hdd hoo
+          rcases hI.trans i (cfg.cls b) with hi | ⟨S0, hS0, hok⟩
+          · rw [hi] at hninv; cases hninv
+          · rw [hcs] at hS0
+            cases hS0
+            rcases hok with ⟨hd, _⟩ | ⟨_, _, T, hT, _, hall⟩
+            · rw [hd] at hdd; simp [Sid.deadS] at hdd
+            · have hdd' : (c.trans i (cfg.cls b)).dead = false := by simpa using hdd
+              rw [hoo, hcs] at hT
+              cases hT
+              exact hall b hb rfl
 
 theorem tryDetect_eq (cfg : Config) (c : Cache) (cs : CState) :
     tryDetect cfg c cs = (cs, c) ∨
     ∃ cs', tryDetect cfg c cs = (cs', c.replace cs.id.off cs') ∧ cs'.st = cs.st ∧ cs'.id = cs.id ∧
-      cs'.accelChecked = true ∧ cs.accelChecked = false ∧
-      cs'.accel = (if 0 < (detectAccel cfg c cs.id).length ∧ (detectAccel cfg c cs.id).length ≤ 3
-        then detectAccel cfg c cs.id else cs.accel) := by
+      cs.accelChecked = false ∧
+      cs'.accel = (if 0 < (if cfg.stride > 0 then detectAccelExact cfg c cs.id else []).length ∧
+          (if cfg.stride > 0 then detectAccelExact cfg c cs.id else []).length ≤ 3
+        then (if cfg.stride > 0 then detectAccelExact cfg c cs.id else []) else cs.accel) := by
   unfold tryDetect
   split
   · exact Or.inl rfl
   · rename_i hch
-    exact Or.inr ⟨_, rfl, rfl, rfl, rfl, by simpa using hch, rfl⟩
+    exact Or.inr ⟨_, rfl, rfl, rfl, by simpa using hch, rfl⟩
 
 theorem tryDetect_spec {N : NFA} {cfg : Config} {c : Cache} (hI : Inv N cfg c) {i : Nat} {cs : CState}
     (hcs : c.list.getD i none = some cs) :
@@ -762,262 +1008,141 @@ theorem tryDetect_spec {N : NFA} {cfg : Config} {c : Cache} (hI : Inv N cfg c) {
     (tryDetect cfg c cs).1.st = cs.st ∧ (tryDetect cfg c cs).1.id = cs.id ∧
     (tryDetect cfg c cs).2.trans = c.trans ∧ (tryDetect cfg c cs).2.list.length = c.list.length := by
   obtain ⟨hoff, _, _, _⟩ := hI.ids i cs hcs
-  rcases tryDetect_eq cfg c cs with he | ⟨cs', he, hst, hid, _, _, _⟩
+  rcases tryDetect_eq cfg c cs with he | ⟨cs', he, hst, hid, _, hacc⟩
   · rw [he]
     exact ⟨hI, Ext.refl _, hcs, rfl, rfl, rfl, rfl⟩
   · rw [he, hoff]
-    obtain ⟨i1, i2⟩ := inv_replace hI hcs hst hid
+    have hok : cs'.accel ≠ [] → AccelOK N cfg cs' := by
+      intro hne
+      by_cases hs : cfg.stride > 0
+      · simp only [hs, ↓reduceIte] at hacc
+        split at hacc
+        · rename_i hlen
+          have hne' : detectAccelExact cfg c cs.id ≠ [] := by
+            intro hnil; rw [hnil] at hlen; simp at hlen
+          intro b hb hc
+          rw [hacc] at hc
+          rw [hst]
+          exact detectAccelExact_ok hI hcs hne' b hb hc
+        · rw [hacc] at hne
+          exact (hI.accel i cs hcs hne).congr hst hacc
+      · simp only [hs, ↓reduceIte, List.length_nil, Nat.lt_irrefl, false_and] at hacc
+        rw [hacc] at hne
+        exact (hI.accel i cs hcs hne).congr hst hacc
+    obtain ⟨i1, i2⟩ := inv_replace hI hcs hst hid hok
     refine ⟨i1, i2, ?_, hst, hid, rfl, ?_⟩
     · rw [replace_getD hcs]; simp
     · show (c.list.set i (some cs')).length = c.list.length
       rw [List.length_set]
 
-/-- ACCELERATION IS OFF: no state object has exit bytes, and a state whose row holds an entry has been through the
-    detection (which then found an empty row).  Holds for caches used by `searchAt` / `searchEarliestMatch` only;
-    `SearchAtAnchored` fills rows without running the detection and breaks it. -/
-structure NoAccel (c : Cache) : Prop where
-  noBytes : ∀ i cs, c.list.getD i none = some cs → cs.accel = []
-  checked : ∀ i cs k, c.list.getD i none = some cs → c.trans i k ≠ Sid.invalid → cs.accelChecked = true
+theorem accelFind_spec (h : Bytes) (ex : List Nat) : ∀ (fuel pos : Nat), h.size + 1 - pos ≤ fuel →
+    (∀ p, accelFind h ex fuel pos = some p → pos ≤ p ∧ p < h.size ∧ ∀ q, pos ≤ q → q < p → ex.contains (h.at q) = false) ∧
+    (accelFind h ex fuel pos = none → ∀ q, pos ≤ q → q < h.size → ex.contains (h.at q) = false) := by
+  intro fuel
+  induction fuel with
+  | zero =>
+    intro pos hf
+    rw [accelFind]
+    exact ⟨fun p hp => (by cases hp), fun _ q h1 h2 => (by omega)⟩
+  | succ fuel ih =>
+    intro pos hf
+    rw [accelFind]
+    by_cases hge : pos ≥ h.size
+    · rw [if_pos hge]
+      exact ⟨fun p hp => (by cases hp), fun _ q h1 h2 => (by omega)⟩
+    · rw [if_neg hge]
+      by_cases hc : ex.contains (h.at pos) = true
+      · rw [if_pos hc]
+        refine ⟨?_, fun hn => by cases hn⟩
+        intro p hp
+        cases hp
+        exact ⟨Nat.le_refl _, by omega, fun q h1 h2 => by omega⟩
+      · rw [if_neg hc]
+        obtain ⟨i1, i2⟩ := ih (pos+1) (by omega)
+        have hcf : ex.contains (h.at pos) = false := by simpa using hc
+        constructor
+        · intro p hp
+          obtain ⟨j1, j2, j3⟩ := i1 p hp
+          refine ⟨by omega, j2, ?_⟩
+          intro q h1 h2
+          by_cases hq : q = pos
+          · rw [hq]; exact hcf
+          · exact j3 q (by omega) h2
+        · intro hn q h1 h2
+          by_cases hq : q = pos
+          · rw [hq]; exact hcf
+          · exact i2 hn q (by omega) h2
 
-theorem noAccel_empty : NoAccel Cache.empty where
-  noBytes := by intro i cs h; simp [Cache.empty] at h
-  checked := by intro i cs k h; simp [Cache.empty] at h
-
-theorem noAccel_clearRebuild (N : NFA) (c : Cache) : NoAccel (clearRebuild N c) where
-  noBytes := by
-    intro i cs h
-    unfold clearRebuild at h
-    match i with
-    | 0 => simp at h; subst h; rfl
-    | i+1 => simp at h
-  checked := by intro i cs k _ h; exact absurd rfl h
-
-theorem noAccel_setTrans {c : Cache} (hN : NoAccel c) {row k : Nat} {t : Sid} {S : CState}
-    (hS : c.list.getD row none = some S) (hch : S.accelChecked = true) : NoAccel (c.setTrans row k t) := by
-  have hlt : row < c.rows := getD_some_lt hS
-  unfold Cache.setTrans
-  rw [if_pos hlt]
-  refine ⟨hN.noBytes, ?_⟩
-  intro i cs k' hcs hne
-  simp only at hne hcs
-  by_cases hrk : i = row ∧ k' = k
-  · obtain ⟨rfl, rfl⟩ := hrk
-    rw [hS] at hcs
-    cases hcs
-    exact hch
-  · rw [if_neg hrk] at hne
-    exact hN.checked i cs k' hcs hne
-
-theorem noAccel_insertNew {N : NFA} {cfg : Config} {c : Cache} (hI : Inv N cfg c) (hN : NoAccel c) {st : DState}
-    {cs : CState} {c1 : Cache} (h : c.insertNew cfg st = some (cs, c1)) : NoAccel c1 := by
-  obtain ⟨hcs, hl, htr, _, _, _⟩ := insertNew_eqs h
-  have hlen := hI.idx.2
-  have hget : ∀ j, c1.list.getD j none = if j = c.nextIdx then some cs else c.list.getD j none := by
-    intro j; rw [hl]; exact getD_setAt _ _ _ _ hlen
-  refine ⟨?_, ?_⟩
-  · intro i cs' hcs'
-    rw [hget] at hcs'
-    split at hcs'
-    · cases hcs'; rw [hcs]
-    · exact hN.noBytes i cs' hcs'
-  · intro i cs' k hcs' hne
-    rw [htr] at hne
-    rw [hget] at hcs'
-    split at hcs'
-    · rename_i hi
-      exfalso
-      rcases hI.trans i k with hinv | ⟨S, hS, _⟩
-      · exact hne hinv
-      · have := getD_some_lt hS
-        omega
-    · exact hN.checked i cs' k hcs' hne
-
-theorem noAccel_tagStart {N : NFA} {cfg : Config} {c : Cache} (hI : Inv N cfg c) (hN : NoAccel c) {cs : CState} {i : Nat}
-    (hcs : c.list.getD i none = some cs) (kind : StartKind) (anch : Bool) : NoAccel (c.tagStart cs kind anch).2 := by
-  obtain ⟨hoff, _, _, _⟩ := hI.ids i cs hcs
-  have hlt := getD_some_lt hcs
-  subst hoff
-  obtain ⟨e1, el, etr, _, _, _⟩ := tagStart_eqs c cs kind anch
-  generalize (c.tagStart cs kind anch).1 = cs' at *
-  generalize (c.tagStart cs kind anch).2 = c1 at *
-  have hget : ∀ j, c1.list.getD j none = if j = cs.id.off then some cs' else c.list.getD j none := by
-    intro j
-    rw [el, getD_set_list]
-    by_cases hj : j = cs.id.off
-    · simp [hj, hlt]
-    · simp [hj]
-  refine ⟨?_, ?_⟩
-  · intro j cs2 hj
-    rw [hget] at hj
-    split at hj
-    · cases hj; rw [e1]; exact hN.noBytes _ cs hcs
-    · exact hN.noBytes j cs2 hj
-  · intro j cs2 k hj hne
-    rw [etr] at hne
-    rw [hget] at hj
-    split at hj
-    · rename_i hjo
-      cases hj
-      rw [e1]
-      rw [hjo] at hne
-      exact hN.checked _ cs k hcs hne
-    · exact hN.checked j cs2 k hj hne
-
-theorem detectAccel_empty (cfg : Config) (c : Cache) (sid : Sid) (he : ∀ k, accelEntry c sid k = Sid.invalid) :
-    detectAccel cfg c sid = [] := by
-  unfold detectAccel
-  simp only
-  have hf : (List.filter (fun k => accelEntry c sid k != Sid.invalid) (List.range cfg.stride)) = [] := by
-    rw [List.filter_eq_nil_iff]
-    intro k _
-    simp [he k]
-  rw [hf]
-  have : (([] : List Nat).length < max 1 (cfg.stride - cfg.stride / 16)) := by simp; omega
-  rw [if_pos this]
-
-theorem noAccel_tryDetect {N : NFA} {cfg : Config} {c : Cache} (hI : Inv N cfg c) (hN : NoAccel c) {i : Nat} {cs : CState}
-    (hcs : c.list.getD i none = some cs) :
-    (tryDetect cfg c cs).1.accel = [] ∧ (tryDetect cfg c cs).1.accelChecked = true ∧ NoAccel (tryDetect cfg c cs).2 := by
-  obtain ⟨hoff, hinv, hdead, _⟩ := hI.ids i cs hcs
-  rcases tryDetect_eq cfg c cs with he | ⟨cs', he, hst, hid, hch', hch, hacc⟩
-  · rw [he]
-    have hc : cs.accelChecked = true := by
-      unfold tryDetect at he
-      split at he
-      · rename_i h; exact h
-      · exfalso
-        have := congrArg (fun p => p.1.accelChecked) he
-        simp at this
-        rename_i hh
-        exact hh this
-    exact ⟨hN.noBytes i cs hcs, hc, hN⟩
-  · rw [he]
-    -- the row of an unchecked state is empty, so the detection finds nothing
-    have hrow : ∀ k, accelEntry c cs.id k = Sid.invalid := by
-      intro k
-      unfold accelEntry
-      rw [hinv, hdead]
-      simp only [Bool.or_self, Bool.false_eq_true, ↓reduceIte]
-      unfold Cache.lookupT
-      split
-      · rw [hoff]
-        cases hx : decide (c.trans i k = Sid.invalid) with
-        | true => exact of_decide_eq_true hx
-        | false =>
-          have hne : c.trans i k ≠ Sid.invalid := of_decide_eq_false hx
-          have := hN.checked i cs k hcs hne
-          rw [hch] at this; cases this
-      · rfl
-    have hdet := detectAccel_empty cfg c cs.id hrow
-    rw [hdet] at hacc
-    simp only [List.length_nil, Nat.lt_irrefl, false_and, ↓reduceIte] at hacc
-    have hacc' : cs'.accel = [] := by rw [hacc]; exact hN.noBytes i cs hcs
-    refine ⟨hacc', hch', ?_, ?_⟩
-    · intro j cs2 hj
-      rw [hoff, replace_getD hcs] at hj
-      split at hj
-      · cases hj; exact hacc'
-      · exact hN.noBytes j cs2 hj
-    · intro j cs2 k hj hne
-      rw [hoff, replace_getD hcs] at hj
-      split at hj
-      · cases hj; exact hch'
-      · exact hN.checked j cs2 k hj hne
-
-theorem noAccel_determinize {N : NFA} {cfg : Config} {c : Cache} (hI : Inv N cfg c) (hN : NoAccel c) {cur : CState}
-    {i : Nat} (hcur : c.list.getD i none = some cur) (hch : cur.accelChecked = true) (b : Nat) :
-    ∀ r c1, determinize N cfg c cur b = (r, c1) → NoAccel c1 := by
-  intro r c1 hd
-  obtain ⟨hoff, _, _, _⟩ := hI.ids i cur hcur
-  unfold determinize at hd
-  cases hs : step N cfg cur.st b with
-  | dead =>
-    rw [hs] at hd
-    simp only [Prod.mk.injEq] at hd
-    obtain ⟨_, rfl⟩ := hd
-    rw [hoff]
-    exact noAccel_setTrans hN hcur hch
-  | limit =>
-    rw [hs] at hd
-    simp only [Prod.mk.injEq] at hd
-    obtain ⟨_, rfl⟩ := hd
-    exact hN
-  | next T =>
-    rw [hs] at hd
-    simp only at hd
-    cases hf : c.findKey T.key with
-    | some ex =>
-      rw [hf] at hd
-      simp only [Prod.mk.injEq] at hd
-      obtain ⟨_, rfl⟩ := hd
-      rw [hoff]
-      exact noAccel_setTrans hN hcur hch
+/-- where the acceleration step lands: every byte it skipped is a non-exit byte -/
+theorem accelPos_spec (h : Bytes) (cur : CState) {pos : Nat} (hp : pos ≤ h.size) :
+    pos ≤ accelPos h cur pos ∧ accelPos h cur pos ≤ h.size ∧
+    (cur.accel = [] → accelPos h cur pos = pos) ∧
+    (∀ q, pos ≤ q → q < accelPos h cur pos → cur.accel.contains (h.at q) = false) := by
+  unfold accelPos
+  by_cases he : cur.accel.isEmpty = true
+  · rw [if_pos he]
+    exact ⟨Nat.le_refl _, hp, fun _ => rfl, fun q h1 h2 => by omega⟩
+  · rw [if_neg he]
+    have hne : cur.accel ≠ [] := by intro hh; rw [hh] at he; exact he rfl
+    obtain ⟨i1, i2⟩ := accelFind_spec h cur.accel (h.size + 1 - pos) pos (Nat.le_refl _)
+    cases hf : accelFind h cur.accel (h.size + 1 - pos) pos with
     | none =>
-      rw [hf] at hd
-      simp only at hd
-      cases hi : c.insertNew cfg T with
-      | some p =>
-        obtain ⟨cs, c2⟩ := p
-        rw [hi] at hd
-        simp only [Prod.mk.injEq] at hd
-        obtain ⟨_, rfl⟩ := hd
-        obtain ⟨_, hext, _, _, _⟩ := insertNew_spec hI hi
-        have hN2 := noAccel_insertNew hI hN hi
-        -- the current state object is unchanged by the insertion
-        obtain ⟨_, hl, _, _, _, _⟩ := insertNew_eqs hi
-        have hcur2 : c2.list.getD i none = some cur := by
-          rw [hl, getD_setAt _ _ _ _ hI.idx.2, if_neg (by have := getD_some_lt hcur; have := hI.idx.2; omega)]
-          exact hcur
-        rw [hoff]
-        exact noAccel_setTrans hN2 hcur2 hch
-      | none =>
-        rw [hi] at hd
-        simp only at hd
-        split at hd
-        · simp only [Prod.mk.injEq] at hd
-          obtain ⟨_, rfl⟩ := hd
-          exact hN
-        · simp only [Prod.mk.injEq] at hd
-          obtain ⟨_, rfl⟩ := hd
-          exact noAccel_clearRebuild N c
+      simp only [Option.getD_none]
+      exact ⟨hp, Nat.le_refl _, fun hh => absurd hh hne, fun q h1 h2 => i2 hf q h1 h2⟩
+    | some p =>
+      simp only [Option.getD_some]
+      obtain ⟨j1, j2, j3⟩ := i1 p hf
+      exact ⟨j1, by omega, fun hh => absurd hh hne, j3⟩
 
-theorem noAccel_getStart {N : NFA} {cfg : Config} {c : Cache} (hI : Inv N cfg c) (hN : NoAccel c) (h : Bytes) (pos : Nat)
-    (anch : Bool) : ∀ ocur c1, getStart N cfg c h pos anch = (ocur, c1) → NoAccel c1 := by
-  intro ocur c1 hg
-  unfold getStart at hg
-  simp only at hg
-  split at hg
-  · simp only [Prod.mk.injEq] at hg
-    obtain ⟨_, rfl⟩ := hg
-    exact hN
-  · cases hf : c.findKey (startState N (kindAt h pos) anch).key with
-    | some ex =>
-      rw [hf] at hg
-      simp only [Prod.mk.injEq] at hg
-      obtain ⟨_, rfl⟩ := hg
-      obtain ⟨_, j, hj⟩ := findKey_spec hf
-      exact noAccel_tagStart hI hN hj _ _
-    | none =>
-      rw [hf] at hg
-      simp only at hg
-      cases hi : c.insertNew cfg (startState N (kindAt h pos) anch) with
-      | none =>
-        rw [hi] at hg
-        simp only [Prod.mk.injEq] at hg
-        obtain ⟨_, rfl⟩ := hg
-        exact hN
-      | some p =>
-        obtain ⟨cs, c2⟩ := p
-        rw [hi] at hg
-        simp only [Prod.mk.injEq] at hg
-        obtain ⟨_, rfl⟩ := hg
-        obtain ⟨hI2, _, _, hget, _⟩ := insertNew_spec hI hi
-        exact noAccel_tagStart hI2 (noAccel_insertNew hI hN hi) hget _ _
+/-- the uncached `searchAt` loop over a stretch of bytes that loop back to the state -/
+theorem sU_skip {N : NFA} {cfg : Config} {h : Bytes} (hb : BytesOK h) {S : DState} {ex : List Nat}
+    (hacc : ∀ b, b < 256 → ex.contains b = false → ∃ T, step N cfg S b = .next T ∧ Eqv N T S) :
+    ∀ (d pos : Nat) (last : Option Nat), pos + d ≤ h.size →
+      (∀ q, pos ≤ q → q < pos + d → ex.contains (h.at q) = false) →
+      sU N cfg h pos S last =
+        sU N cfg h (pos + d) S (if decide (pos + d > pos) && S.isMatch then some (pos + d - 1) else last) := by
+  intro d
+  induction d with
+  | zero => intro pos last _ _; simp
+  | succ d ih =>
+    intro pos last hle hall
+    have hlt : pos < h.size := by omega
+    obtain ⟨T, hs, he⟩ := hacc (h.at pos) (hb pos) (hall pos (Nat.le_refl _) (by omega))
+    rw [sU_lt hlt, hs]
+    simp only
+    rw [sU_congr he (by omega), ih (pos+1) _ (by omega) (fun q h1 h2 => hall q (by omega) (by omega))]
+    have hpd : pos + 1 + d = pos + (d + 1) := by omega
+    rw [hpd, he.2.1]
+    congr 1
+    cases hm : S.isMatch with
+    | false => simp
+    | true =>
+      by_cases hd : d = 0
+      · subst hd; simp
+      · have h1 : pos + (d + 1) > pos + 1 := by omega
+        have h2 : pos + (d + 1) > pos := by omega
+        simp [h1, h2]
 
-theorem accelJump_nil (h : Bytes) {cur : CState} (ha : cur.accel = []) (pos : Nat) : accelJump h cur pos = some pos := by
-  unfold accelJump
-  rw [ha]
-  rfl
+/-- the uncached `searchEarliestMatch` loop over a stretch of bytes that loop back to a non-match state -/
+theorem eU_skip {N : NFA} {cfg : Config} {h : Bytes} (hb : BytesOK h) {S : DState} {ex : List Nat} (hm : S.isMatch = false)
+    (hacc : ∀ b, b < 256 → ex.contains b = false → ∃ T, step N cfg S b = .next T ∧ Eqv N T S) :
+    ∀ (d pos : Nat), pos + d ≤ h.size →
+      (∀ q, pos ≤ q → q < pos + d → ex.contains (h.at q) = false) →
+      eU N cfg h pos S = eU N cfg h (pos + d) S := by
+  intro d
+  induction d with
+  | zero => intro pos _ _; rfl
+  | succ d ih =>
+    intro pos hle hall
+    have hlt : pos < h.size := by omega
+    obtain ⟨T, hs, he⟩ := hacc (h.at pos) (hb pos) (hall pos (Nat.le_refl _) (by omega))
+    rw [eU_lt hlt, hs]
+    simp only
+    rw [he.2.1, hm]
+    simp only [Bool.false_eq_true, ↓reduceIte]
+    rw [eU_congr he (by omega), ih (pos+1) (by omega) (fun q h1 h2 => hall q (by omega) (by omega))]
+    have hpd : pos + 1 + d = pos + (d + 1) := by omega
+    rw [hpd]
 
 theorem lookupT_congr {c c' : Cache} (ht : c'.trans = c.trans) (hl : c'.list.length = c.list.length) (row k : Nat) :
     c'.lookupT row k = c.lookupT row k := by
@@ -1050,189 +1175,75 @@ theorem fastStep_some {N : NFA} {cfg : Config} {c : Cache} {h : Bytes} {pos : Na
         exact ⟨by simpa using ht, Or.inr ⟨by omega, hc.2, rfl⟩⟩
     · cases hf
 
-/-! ### the invariant survives every search, whatever the cache went through before -/
-
-theorem searchLoopC_inv {N : NFA} {cfg : Config} {h : Bytes} (hC : ClassSound N cfg) (hb : BytesOK h) :
-    ∀ (fuel : Nat) (c : Cache) (pos : Nat) (sid : Sid) (last : Option Nat) (k : Nat), Inv N cfg c →
-      Inv N cfg (searchLoopC N cfg h fuel c pos sid last k).2 := by
-  intro fuel
-  induction fuel with
-  | zero => intro c pos sid last k hI; exact hI
-  | succ fuel ih =>
-    intro c pos sid last k hI
-    rw [searchLoopC]
-    by_cases hlt : pos < h.size
-    · simp only [hlt, ↓reduceIte]
-      cases hfs : fastStep N cfg c h pos sid k with
-      | some n => exact ih _ _ _ _ _ hI
-      | none =>
-        simp only
-        by_cases hsf : (sid.start && c.lookupT sid.off (cfg.cls (h.at pos)) != Sid.invalid &&
-            c.lookupT sid.off (cfg.cls (h.at pos)) != Sid.deadS) = true
-        · rw [if_pos hsf]; exact ih _ _ _ _ _ hI
-        · rw [if_neg hsf]
-          cases hgs : c.getState sid with
-          | none => exact hI
-          | some cur0 =>
-            simp only
-            obtain ⟨i1, _, i3, _, _, _, _⟩ := tryDetect_spec hI (getState_some hgs)
-            generalize tryDetect cfg c cur0 = dc at *
-            cases hj : accelJump h dc.1 pos with
-            | none => exact i1
-            | some pos' =>
-              simp only
-              by_cases hwb : (hasWB N && wbMatch N dc.1.st (h.at pos')) = true
-              · rw [if_pos hwb]; exact i1
-              · rw [if_neg hwb]
-                by_cases hinv : dc.2.lookupT sid.off (cfg.cls (h.at pos')) = Sid.invalid
-                · rw [if_pos hinv]
-                  cases hd : determinize N cfg dc.2 dc.1 (h.at pos') with
-                  | mk r c1 =>
-                    obtain ⟨hI1, _⟩ := determinize_spec i1 hC i3 (hb pos') r c1 hd
-                    cases r with
-                    | dead => exact hI1
-                    | next cs => exact ih _ _ _ _ _ hI1
-                    | cleared => exact hI1
-                    | fail => exact hI1
-                · rw [if_neg hinv]
-                  by_cases hdd : dc.2.lookupT sid.off (cfg.cls (h.at pos')) = Sid.deadS
-                  · rw [if_pos hdd]; exact i1
-                  · rw [if_neg hdd]; exact ih _ _ _ _ _ i1
-    · simp only [hlt, ↓reduceIte]
-      cases hgs : c.getState sid with
-      | none => exact hI
-      | some e => simp only; split <;> exact hI
-
-theorem searchAtC_inv {N : NFA} {cfg : Config} {h : Bytes} (hC : ClassSound N cfg) (hb : BytesOK h) {c : Cache}
-    (hI : Inv N cfg c) (startPos : Nat) : Inv N cfg (searchAtC N cfg c h startPos).2 := by
-  unfold searchAtC
-  split
-  · exact hI
-  · split
-    · exact hI
-    · cases hg : getStart N cfg c h startPos false with
-      | mk ocur c1 =>
-        obtain ⟨hI1, _⟩ := getStart_spec hI h startPos false ocur c1 hg
-        cases ocur with
-        | none => exact hI1
-        | some cur => exact searchLoopC_inv hC hb _ _ _ _ _ _ hI1
-
-theorem earliestLoopC_inv {N : NFA} {cfg : Config} {h : Bytes} (hC : ClassSound N cfg) (hb : BytesOK h) :
-    ∀ (fuel : Nat) (c : Cache) (pos : Nat) (sid : Sid) (k : Nat), Inv N cfg c →
-      Inv N cfg (earliestLoopC N cfg h fuel c pos sid k).2 := by
-  intro fuel
-  induction fuel with
-  | zero => intro c pos sid k hI; exact hI
-  | succ fuel ih =>
-    intro c pos sid k hI
-    rw [earliestLoopC]
-    by_cases hlt : pos < h.size
-    · simp only [hlt, ↓reduceIte]
-      cases hfs : fastStepE N cfg c h pos sid k with
-      | hit => exact hI
-      | go n => exact ih _ _ _ _ hI
-      | slow =>
-        simp only
-        by_cases hsf : (sid.start && c.lookupT sid.off (cfg.cls (h.at pos)) != Sid.invalid &&
-            c.lookupT sid.off (cfg.cls (h.at pos)) != Sid.deadS) = true
-        · rw [if_pos hsf]
-          split
-          · exact hI
-          · exact ih _ _ _ _ hI
-        · rw [if_neg hsf]
-          cases hgs : c.getState sid with
-          | none => exact hI
-          | some cur0 =>
-            simp only
-            obtain ⟨i1, _, i3, _, _, _, _⟩ := tryDetect_spec hI (getState_some hgs)
-            generalize tryDetect cfg c cur0 = dc at *
-            cases hj : accelJump h dc.1 pos with
-            | none => exact i1
-            | some pos' =>
-              simp only
-              by_cases hwb : (hasWB N && wbFast dc.1.st (h.at pos')) = true
-              · rw [if_pos hwb]; exact i1
-              · rw [if_neg hwb]
-                by_cases hinv : dc.2.lookupT sid.off (cfg.cls (h.at pos')) = Sid.invalid
-                · rw [if_pos hinv]
-                  cases hd : determinize N cfg dc.2 dc.1 (h.at pos') with
-                  | mk r c1 =>
-                    obtain ⟨hI1, _⟩ := determinize_spec i1 hC i3 (hb pos') r c1 hd
-                    cases r with
-                    | dead => exact hI1
-                    | next cs =>
-                      simp only
-                      split
-                      · exact hI1
-                      · exact ih _ _ _ _ hI1
-                    | cleared => exact hI1
-                    | fail => exact hI1
-                · rw [if_neg hinv]
-                  by_cases hdd : dc.2.lookupT sid.off (cfg.cls (h.at pos')) = Sid.deadS
-                  · rw [if_pos hdd]; exact i1
-                  · rw [if_neg hdd]
-                    split
-                    · exact i1
-                    · exact ih _ _ _ _ i1
-    · simp only [hlt, ↓reduceIte]
-      cases hgs : c.getState sid with
-      | none => exact hI
-      | some e => exact hI
-
-theorem earliestC_inv {N : NFA} {cfg : Config} {h : Bytes} (hC : ClassSound N cfg) (hb : BytesOK h) {c : Cache}
-    (hI : Inv N cfg c) (startPos : Nat) : Inv N cfg (earliestC N cfg c h startPos).2 := by
-  unfold earliestC
-  split
-  · exact hI
-  · split
-    · exact hI
-    · cases hg : getStart N cfg c h startPos false with
-      | mk ocur c1 =>
-        obtain ⟨hI1, _⟩ := getStart_spec hI h startPos false ocur c1 hg
-        cases ocur with
-        | none => exact hI1
-        | some cur => exact earliestLoopC_inv hC hb _ _ _ _ _ hI1
-
 /-! ### `searchAt` -/
 
-theorem searchLoopC_sim {N : NFA} {cfg : Config} {h : Bytes} (hW : hasWB N = false) (hC : ClassSound N cfg)
-    (hb : BytesOK h) : ∀ (fuel : Nat) (c : Cache) (pos : Nat) (sid : Sid) (last : Option Nat) (k : Nat) (S : DState),
-    Inv N cfg c → NoAccel c → AtState c sid S →
-    NoAccel (searchLoopC N cfg h fuel c pos sid last k).2 ∧
+theorem eoiC_eq {N : NFA} {c : Cache} {sid : Sid} {S : DState} (hat : AtState N c sid S) : eoiC N c sid = checkEOI N S := by
+  obtain ⟨cs, hgs, _, he⟩ := hat.getState
+  unfold eoiC
+  rw [hgs]
+  exact checkEOI_congr he
+
+/-- the acceleration step of the slow path, seen from the uncached loop -/
+theorem accel_skip {N : NFA} {cfg : Config} {h : Bytes} (hb : BytesOK h) {c : Cache} (hI : Inv N cfg c) {sid : Sid}
+    {S : DState} {cur : CState} (hcur : c.list.getD sid.off none = some cur) (he : Eqv N cur.st S) {pos : Nat}
+    (hp : pos ≤ h.size) :
+    pos ≤ accelPos h cur pos ∧ accelPos h cur pos ≤ h.size ∧
+    (∀ last, sU N cfg h pos S last = sU N cfg h (accelPos h cur pos) S
+      (if decide (accelPos h cur pos > pos) && S.isMatch then some (accelPos h cur pos - 1) else last)) ∧
+    (S.isMatch = false → eU N cfg h pos S = eU N cfg h (accelPos h cur pos) S) := by
+  obtain ⟨a1, a2, a3, a4⟩ := accelPos_spec h cur hp
+  refine ⟨a1, a2, ?_, ?_⟩
+  · intro last
+    by_cases hnil : cur.accel = []
+    · rw [a3 hnil]; simp
+    · have hacc : ∀ b, b < 256 → cur.accel.contains b = false → ∃ T, step N cfg S b = .next T ∧ Eqv N T S := by
+        intro b hb' hc
+        obtain ⟨T, hs, hT⟩ := hI.accel _ cur hcur hnil b hb' hc
+        exact ⟨T, by rw [← step_congr cfg he]; exact hs, hT.trans he⟩
+      have := sU_skip hb hacc (accelPos h cur pos - pos) pos last (by omega) (fun q h1 h2 => a4 q h1 (by omega))
+      have hpd : pos + (accelPos h cur pos - pos) = accelPos h cur pos := by omega
+      rw [hpd] at this
+      exact this
+  · intro hm
+    by_cases hnil : cur.accel = []
+    · rw [a3 hnil]
+    · have hacc : ∀ b, b < 256 → cur.accel.contains b = false → ∃ T, step N cfg S b = .next T ∧ Eqv N T S := by
+        intro b hb' hc
+        obtain ⟨T, hs, hT⟩ := hI.accel _ cur hcur hnil b hb' hc
+        exact ⟨T, by rw [← step_congr cfg he]; exact hs, hT.trans he⟩
+      have := eU_skip hb hm hacc (accelPos h cur pos - pos) pos (by omega) (fun q h1 h2 => a4 q h1 (by omega))
+      have hpd : pos + (accelPos h cur pos - pos) = accelPos h cur pos := by omega
+      rw [hpd] at this
+      exact this
+
+theorem searchLoopC_sim {N : NFA} {cfg : Config} {h : Bytes} (hC : ClassSound N cfg) (hb : BytesOK h) :
+    ∀ (fuel : Nat) (c : Cache) (pos : Nat) (sid : Sid) (last : Option Nat) (k : Nat) (S : DState),
+    h.size + 1 - pos ≤ fuel → pos ≤ h.size → Inv N cfg c → AtState N c sid S →
+    Inv N cfg (searchLoopC N cfg h fuel c pos sid last k).2 ∧
     ((searchLoopC N cfg h fuel c pos sid last k).1 = .gaveUp ∨
-     (searchLoopC N cfg h fuel c pos sid last k).1 = searchLoopU N cfg h fuel pos S last) := by
+     (searchLoopC N cfg h fuel c pos sid last k).1 = sU N cfg h pos S last) := by
   intro fuel
   induction fuel with
-  | zero => intro c pos sid last k S _ hN _; exact ⟨hN, Or.inr rfl⟩
+  | zero => intro c pos sid last k S hf hp _ _; omega
   | succ fuel ih =>
-    intro c pos sid last k S hI hN hat
+    intro c pos sid last k S hf hp hI hat
     obtain ⟨cur0, hgs, hcur0, hcn⟩ := hat.getState
-    have hbb : h.at pos < 256 := hb pos
     by_cases hlt : pos < h.size
-    · -- the uncached step
-      have hU : searchLoopU N cfg h (fuel+1) pos S last =
-          (match step N cfg S (h.at pos) with
-           | .dead => .ok last
-           | .limit => .gaveUp
-           | .next T => searchLoopU N cfg h fuel (pos+1) T (if T.isMatch then some pos else last)) := by
-        rw [searchLoopU]
-        simp only [hlt, ↓reduceIte, hW, Bool.false_and, Bool.false_eq_true]
-        cases step N cfg S (h.at pos) <;> rfl
-      -- following a known, non-dead transition (in any cache in which the run is at `S`)
-      have hfollow : ∀ (c' : Cache) (k' : Nat) (nx : Sid), Inv N cfg c' → NoAccel c' → AtState c' sid S →
-          nx = c'.trans sid.off (cfg.cls (h.at pos)) → nx ≠ Sid.invalid → nx ≠ Sid.deadS →
-          NoAccel (searchLoopC N cfg h fuel c' (pos+1) nx (if nx.mtch then some pos else last) k').2 ∧
-          ((searchLoopC N cfg h fuel c' (pos+1) nx (if nx.mtch then some pos else last) k').1 = .gaveUp ∨
-           (searchLoopC N cfg h fuel c' (pos+1) nx (if nx.mtch then some pos else last) k').1 =
-             searchLoopU N cfg h (fuel+1) pos S last) := by
-        intro c' k' nx hI' hN' hat' hnx hne hnd
+    · -- following a known, non-dead transition (in any cache in which the run is at `S`, at any position reached)
+      have hfollow : ∀ (c' : Cache) (k' : Nat) (nx : Sid) (np : Nat) (lst : Option Nat), Inv N cfg c' → AtState N c' sid S →
+          pos ≤ np → np < h.size →
+          nx = c'.trans sid.off (cfg.cls (h.at np)) → nx ≠ Sid.invalid → nx ≠ Sid.deadS →
+          Inv N cfg (searchLoopC N cfg h fuel c' (np+1) nx (if nx.mtch then some np else lst) k').2 ∧
+          ((searchLoopC N cfg h fuel c' (np+1) nx (if nx.mtch then some np else lst) k').1 = .gaveUp ∨
+           (searchLoopC N cfg h fuel c' (np+1) nx (if nx.mtch then some np else lst) k').1 = sU N cfg h np S lst) := by
+        intro c' k' nx np lst hI' hat' hnp1 hnp2 hnx hne hnd
         subst hnx
-        rcases follow hW hI' hat' hbb hne with ⟨hd, _⟩ | ⟨_, T', hs, hat'', hm⟩
+        rcases follow hI' hat' (hb np) hne with ⟨hd, _⟩ | ⟨_, T', hs, hat''⟩
         · exact absurd hd hnd
-        · rw [hU, hs]
+        · rw [sU_lt hnp2, hs]
           simp only
-          rw [hm]
-          exact ih c' (pos+1) _ _ k' T' hI' hN' hat''
+          rw [← hat''.2.2.1]
+          exact ih c' (np+1) _ _ k' T' (by omega) (by omega) hI' hat''
       rw [searchLoopC]
       simp only [hlt, ↓reduceIte]
       cases hfs : fastStep N cfg c h pos sid k with
@@ -1246,7 +1257,7 @@ theorem searchLoopC_sim {N : NFA} {cfg : Config} {h : Bytes} (hW : hasWB N = fal
         obtain ⟨t1, t2, t3, t4⟩ := tagged_false ht
         have hne : n ≠ Sid.invalid := by intro he; rw [he] at t1; cases t1
         have hnd : n ≠ Sid.deadS := by intro he; rw [he] at t2; cases t2
-        have := hfollow c (nextPhase k) n hI hN hat hn' hne hnd
+        have := hfollow c (nextPhase k) n pos last hI hat (Nat.le_refl _) hlt hn' hne hnd
         rw [t4] at this
         simpa using this
       | none =>
@@ -1256,146 +1267,91 @@ theorem searchLoopC_sim {N : NFA} {cfg : Config} {h : Bytes} (hW : hasWB N = fal
             c.trans sid.off (cfg.cls (h.at pos)) != Sid.deadS) = true
         · rw [if_pos hsf]
           simp only [Bool.and_eq_true, bne_iff_ne, ne_eq] at hsf
-          exact hfollow c 0 _ hI hN hat rfl hsf.1.2 hsf.2
+          exact hfollow c 0 _ pos last hI hat (Nat.le_refl _) hlt rfl hsf.1.2 hsf.2
         · rw [if_neg hsf, hgs]
           simp only
           obtain ⟨i1, i2, i3, i4, _, i6, i7⟩ := tryDetect_spec (cfg := cfg) hI hcur0
-          obtain ⟨a1, a2, a3⟩ := noAccel_tryDetect (cfg := cfg) hI hN hcur0
           generalize tryDetect cfg c cur0 = dc at *
-          rw [accelJump_nil h a1]
-          simp only
-          have hat2 : AtState dc.2 sid S := hat.ext i2
-          have hlk : dc.2.lookupT sid.off (cfg.cls (h.at pos)) = c.trans sid.off (cfg.cls (h.at pos)) := by
-            rw [hat2.lookupT, i6]
-          have hdn : dc.1.st.nfa = S.nfa := by rw [i4]; exact hcn
-          rw [hlk]
-          simp only [hW, Bool.false_and, Bool.false_eq_true, ↓reduceIte]
-          by_cases hinv : c.trans sid.off (cfg.cls (h.at pos)) = Sid.invalid
-          · rw [if_pos hinv]
-            cases hd : determinize N cfg dc.2 dc.1 (h.at pos) with
-            | mk r c1 =>
-              obtain ⟨hI1, hr⟩ := determinize_spec i1 hC i3 hbb r c1 hd
-              have hN1 := noAccel_determinize i1 a3 i3 a2 (h.at pos) r c1 hd
-              cases r with
-              | dead =>
-                simp only at hr ⊢
-                refine ⟨hN1, Or.inr ?_⟩
-                rw [hU, ← step_congr hW cfg hdn, hr.1]
-              | next cs =>
-                simp only at hr ⊢
-                obtain ⟨⟨T, hs, hn, hm⟩, hget, hext⟩ := hr
-                obtain ⟨_, ci, cd, cm⟩ := hI1.ids _ _ hget
-                rw [hU, ← step_congr hW cfg hdn, hs]
-                simp only
-                rw [hm, ← cm]
-                exact ih c1 (pos+1) cs.id _ 0 T hI1 hN1 ⟨ci, cd, cs, hget, hn.symm⟩
-              | cleared => exact ⟨hN1, Or.inl rfl⟩
-              | fail => exact ⟨hN1, Or.inl rfl⟩
-          · rw [if_neg hinv]
-            by_cases hdd : c.trans sid.off (cfg.cls (h.at pos)) = Sid.deadS
-            · rw [if_pos hdd]
-              refine ⟨a3, Or.inr ?_⟩
-              rcases follow hW hI hat hbb hinv with ⟨_, hs⟩ | ⟨hnd, _⟩
-              · rw [hU, hs]
-              · exact absurd hdd hnd
-            · rw [if_neg hdd]
-              exact hfollow dc.2 0 _ i1 a3 hat2 (by rw [i6]) hinv hdd
-    · rw [searchLoopC, searchLoopU]
-      simp only [hlt, ↓reduceIte, hgs]
-      rw [checkEOI_congr hW hcn]
+          have hat2 : AtState N dc.2 sid S := hat.ext i2
+          have hde : Eqv N dc.1.st S := by rw [i4]; exact hcn
+          obtain ⟨s1, s2, s3, _⟩ := accel_skip (cfg := cfg) hb i1 i3 hde hp
+          have hm : sid.mtch = S.isMatch := hat.2.2.1
+          rw [s3 last, ← hm]
+          generalize accelPos h dc.1 pos = np at *
+          generalize (if (decide (np > pos) && sid.mtch) = true then some (np - 1) else last) = lst
+          by_cases hge : np ≥ h.size
+          · rw [if_pos hge, eoiC_eq hat2, sU_ge (by omega) s2]
+            split
+            · exact ⟨i1, Or.inr rfl⟩
+            · exact ⟨i1, Or.inr rfl⟩
+          · rw [if_neg hge]
+            have hnlt : np < h.size := by omega
+            have hlk : dc.2.lookupT sid.off (cfg.cls (h.at np)) = c.trans sid.off (cfg.cls (h.at np)) := by
+              rw [hat2.lookupT, i6]
+            rw [hlk]
+            by_cases hinv : c.trans sid.off (cfg.cls (h.at np)) = Sid.invalid
+            · rw [if_pos hinv]
+              cases hd : determinize N cfg dc.2 dc.1 (h.at np) with
+              | mk r c1 =>
+                obtain ⟨hI1, hr⟩ := determinize_spec i1 hC i3 (hb np) r c1 hd
+                cases r with
+                | dead =>
+                  simp only at hr ⊢
+                  refine ⟨hI1, Or.inr ?_⟩
+                  rw [sU_lt hnlt, ← step_congr cfg hde, hr]
+                | next cs =>
+                  simp only at hr ⊢
+                  obtain ⟨hs, hget⟩ := hr
+                  have hat3 := atState_of_get hI1 hget
+                  rw [sU_lt hnlt, ← step_congr cfg hde, hs]
+                  simp only
+                  rw [← hat3.2.2.1]
+                  exact ih c1 (np+1) cs.id _ 0 cs.st (by omega) (by omega) hI1 hat3
+                | fail => exact ⟨hI1, Or.inl rfl⟩
+            · rw [if_neg hinv]
+              have hinv2 : dc.2.trans sid.off (cfg.cls (h.at np)) ≠ Sid.invalid := by rw [i6]; exact hinv
+              by_cases hdd : c.trans sid.off (cfg.cls (h.at np)) = Sid.deadS
+              · rw [if_pos hdd]
+                refine ⟨i1, Or.inr ?_⟩
+                rcases follow i1 hat2 (hb np) hinv2 with ⟨_, hs⟩ | ⟨hnd, _⟩
+                · rw [sU_lt hnlt, hs]
+                · rw [i6] at hnd; exact absurd hdd hnd
+              · rw [if_neg hdd]
+                exact hfollow dc.2 0 _ np lst i1 hat2 s1 hnlt (by rw [i6]) hinv hdd
+    · rw [searchLoopC]
+      simp only [hlt, ↓reduceIte]
+      rw [eoiC_eq hat, sU_ge hlt hp]
       split
-      · exact ⟨hN, Or.inr rfl⟩
-      · exact ⟨hN, Or.inr rfl⟩
+      · exact ⟨hI, Or.inr rfl⟩
+      · exact ⟨hI, Or.inr rfl⟩
 
-/-- what row 0 holds, if anything, is equivalent to the start state `S` (so an `InvalidState` id, whose offset is 0, may
-    use it): true when the cache was never cleared (row 0 is empty) or when start states do not depend on the kind -/
-def Row0OK (c : Cache) (S : DState) : Prop := ∀ cs, c.list.getD 0 none = some cs → cs.st.nfa = S.nfa
-
-theorem row0OK_of {N : NFA} {cfg : Config} {c : Cache} (hI : Inv N cfg c)
-    (h0 : c.clearCount = 0 ∨ noStartLookB N = true) (kind : StartKind) : Row0OK c (startState N kind false) := by
-  intro cs hcs
-  rcases h0 with h0 | h0
-  · rw [hI.row0 h0] at hcs; cases hcs
-  · rw [hI.row0st cs hcs]; exact startState_noStart h0 _ _ _
-
-theorem getState_invalid (c : Cache) : c.getState Sid.invalid = none := by simp [Sid.invalid, Cache.getState]
-
-/-- an `InvalidState` start id (the start state could not be cached): the slow path gives up; the unrolled block reads
-    row 0, which is harmless when `Row0OK` -/
-theorem searchLoopC_invalid {N : NFA} {cfg : Config} {h : Bytes} (hW : hasWB N = false) (hC : ClassSound N cfg)
-    (hb : BytesOK h) {c : Cache} (hI : Inv N cfg c) (hN : NoAccel c) {S : DState} (h0 : Row0OK c S) {pos : Nat}
-    (hlt : pos < h.size) (fuel : Nat) (last : Option Nat) :
-    NoAccel (searchLoopC N cfg h (fuel+1) c pos Sid.invalid last 0).2 ∧
-    ((searchLoopC N cfg h (fuel+1) c pos Sid.invalid last 0).1 = .gaveUp ∨
-     (searchLoopC N cfg h (fuel+1) c pos Sid.invalid last 0).1 = searchLoopU N cfg h (fuel+1) pos S last) := by
-  rw [searchLoopC]
-  simp only [hlt, ↓reduceIte]
-  cases hfs : fastStep N cfg c h pos Sid.invalid 0 with
-  | none =>
-    simp only
-    have hst : Sid.invalid.start = false := rfl
-    rw [getState_invalid, hst]
-    simp only [Bool.false_and, Bool.false_eq_true, ↓reduceIte]
-    exact ⟨hN, Or.inl trivial⟩
-  | some n =>
-    simp only
-    obtain ⟨ht, hn⟩ := fastStep_some hfs
-    obtain ⟨t1, t2, t3, t4⟩ := tagged_false ht
-    have hne : n ≠ Sid.invalid := by intro he; rw [he] at t1; cases t1
-    have hoff : Sid.invalid.off = 0 := rfl
-    have hn0 : n = c.trans 0 (cfg.cls (h.at pos)) := by
-      rcases hn with ⟨hk, _⟩ | ⟨_, _, hn⟩
-      · omega
-      · rw [hoff] at hn; exact hn
-    rcases hI.trans 0 (cfg.cls (h.at pos)) with hi | ⟨S0, hS0, _⟩
-    · exact absurd (hn0.trans hi) hne
-    · have hat0 : AtState c { off := 0 } S := ⟨rfl, rfl, S0, hS0, h0 S0 hS0⟩
-      rcases follow hW hI hat0 (hb pos) (by rw [← hn0]; exact hne) with ⟨hd, _⟩ | ⟨_, T', hs, hat', hm⟩
-      · exfalso
-        have : n = Sid.deadS := hn0.trans hd
-        rw [this] at t2; cases t2
-      · have hU : searchLoopU N cfg h (fuel+1) pos S last = searchLoopU N cfg h fuel (pos+1) T' last := by
-          rw [searchLoopU]
-          simp only [hlt, ↓reduceIte, hW, Bool.false_and, Bool.false_eq_true, hs]
-          have : T'.isMatch = false := by rw [hm, ← hn0]; exact t4
-          rw [this]
-          simp
-        rw [hU]
-        have hn' : c.trans ({ off := 0 } : Sid).off (cfg.cls (h.at pos)) = n := hn0.symm
-        rw [hn'] at hat'
-        exact searchLoopC_sim hW hC hb fuel c (pos+1) n last (nextPhase 0) T' hI hN hat'
-
-/-- (a) for `searchAt`: on a cache satisfying the invariant on which acceleration is off, the cached search either gives
-    up (NFA fallback) or returns exactly what the search without a cache returns; the invariant holds again afterwards
-    and acceleration is still off.  Every capacity, every clear limit.
-    `h0`: the cache was never cleared, or the NFA has no `^`/`\A` state. -/
-theorem searchAtC_eq {N : NFA} {cfg : Config} {h : Bytes} {c : Cache} (hW : hasWB N = false) (hC : ClassSound N cfg)
-    (hb : BytesOK h) (hI : Inv N cfg c) (hN : NoAccel c) (h0 : c.clearCount = 0 ∨ noStartLookB N = true)
-    {startPos : Nat} (hp : startPos < h.size) :
-    Inv N cfg (searchAtC N cfg c h startPos).2 ∧ NoAccel (searchAtC N cfg c h startPos).2 ∧
+/-- (a) for `searchAt`: on ANY cache satisfying the invariant the cached search either gives up (NFA fallback) or returns
+    exactly what the search without a cache returns; the invariant holds again afterwards.  Every capacity, every clear
+    limit, acceleration and word boundaries included. -/
+theorem searchAtC_eq {N : NFA} {cfg : Config} {h : Bytes} {c : Cache} (hC : ClassSound N cfg)
+    (hb : BytesOK h) (hI : Inv N cfg c) (startPos : Nat) :
+    Inv N cfg (searchAtC N cfg c h startPos).2 ∧
     ((searchAtC N cfg c h startPos).1 = .gaveUp ∨ (searchAtC N cfg c h startPos).1 = searchAtU N cfg h startPos) := by
-  refine ⟨searchAtC_inv hC hb hI startPos, ?_⟩
   unfold searchAtC searchAtU
-  have hgt : ¬ startPos > h.size := by omega
-  simp only [hgt, ↓reduceIte]
-  by_cases ha : alwaysAnchored N = true ∧ startPos > 0
-  · simp only [ha, and_self, ↓reduceIte]
-    exact ⟨hN, Or.inr trivial⟩
-  · rw [if_neg ha, if_neg ha]
-    cases hg : getStart N cfg c h startPos false with
-    | mk ocur c1 =>
-      obtain ⟨hI1, _, hcc, hcur⟩ := getStart_spec hI h startPos false ocur c1 hg
-      have hN1 := noAccel_getStart hI hN h startPos false ocur c1 hg
-      cases ocur with
-      | none => exact ⟨hN1, Or.inl rfl⟩
-      | some cur =>
-        simp only
-        obtain ⟨hn, hid | ⟨hi, hd, hget⟩⟩ := hcur cur rfl
-        · obtain ⟨hid, rfl⟩ := hid
-          have hf : h.size + 1 - startPos = (h.size - startPos) + 1 := by omega
-          rw [hid, hf]
-          exact searchLoopC_invalid hW hC hb hI hN (row0OK_of hI h0 _) hp _ _
-        · exact searchLoopC_sim hW hC hb _ c1 startPos cur.id none 0 _ hI1 hN1 ⟨hi, hd, cur, hget, hn⟩
+  by_cases hgt : startPos > h.size
+  · simp only [hgt, ↓reduceIte]
+    exact ⟨hI, Or.inr trivial⟩
+  · simp only [hgt, ↓reduceIte]
+    by_cases ha : alwaysAnchored N = true ∧ startPos > 0
+    · simp only [ha, and_self, ↓reduceIte]
+      exact ⟨hI, Or.inr trivial⟩
+    · rw [if_neg ha, if_neg ha]
+      cases hg : getStart N cfg c h startPos false with
+      | mk ocur c1 =>
+        obtain ⟨hI1, hcur⟩ := getStart_spec hI h startPos false ocur c1 hg
+        cases ocur with
+        | none => exact ⟨hI1, Or.inl rfl⟩
+        | some cur =>
+          simp only
+          obtain ⟨hn, hi, hd, hget⟩ := hcur cur rfl
+          have hat := atState_of_get hI1 hget
+          rw [hn] at hat
+          exact searchLoopC_sim hC hb _ c1 startPos cur.id none 0 _ (Nat.le_refl _) (by omega) hI1 hat
 
 /-! ### `searchEarliestMatch` -/
 
@@ -1430,44 +1386,38 @@ theorem fastStepE_spec {N : NFA} {cfg : Config} {c : Cache} {h : Bytes} {pos : N
         exact Or.inr ⟨_, Or.inr ⟨rfl, by simpa using ht⟩, Or.inr ⟨by omega, hc.2, rfl⟩⟩
     · exact Or.inl rfl
 
-theorem earliestLoopC_sim {N : NFA} {cfg : Config} {h : Bytes} (hW : hasWB N = false) (hC : ClassSound N cfg)
-    (hb : BytesOK h) : ∀ (fuel : Nat) (c : Cache) (pos : Nat) (sid : Sid) (k : Nat) (S : DState),
-    Inv N cfg c → NoAccel c → AtState c sid S →
-    NoAccel (earliestLoopC N cfg h fuel c pos sid k).2 ∧
+/-- the loop of `searchEarliestMatch` is only ever at states that are not match-tagged (`hnm`) -/
+theorem earliestLoopC_sim {N : NFA} {cfg : Config} {h : Bytes} (hC : ClassSound N cfg) (hb : BytesOK h) :
+    ∀ (fuel : Nat) (c : Cache) (pos : Nat) (sid : Sid) (k : Nat) (S : DState),
+    h.size + 1 - pos ≤ fuel → pos ≤ h.size → Inv N cfg c → AtState N c sid S → S.isMatch = false →
+    Inv N cfg (earliestLoopC N cfg h fuel c pos sid k).2 ∧
     ((earliestLoopC N cfg h fuel c pos sid k).1 = .gaveUp ∨
-     (earliestLoopC N cfg h fuel c pos sid k).1 = earliestLoopU N cfg h fuel pos S) := by
+     (earliestLoopC N cfg h fuel c pos sid k).1 = eU N cfg h pos S) := by
   intro fuel
   induction fuel with
-  | zero => intro c pos sid k S _ hN _; exact ⟨hN, Or.inr rfl⟩
+  | zero => intro c pos sid k S hf hp _ _ _; omega
   | succ fuel ih =>
-    intro c pos sid k S hI hN hat
+    intro c pos sid k S hf hp hI hat hnm
     obtain ⟨cur0, hgs, hcur0, hcn⟩ := hat.getState
-    have hbb : h.at pos < 256 := hb pos
     by_cases hlt : pos < h.size
-    · have hU : earliestLoopU N cfg h (fuel+1) pos S =
-          (match step N cfg S (h.at pos) with
-           | .dead => .ok false
-           | .limit => .gaveUp
-           | .next T => if T.isMatch then .ok true else earliestLoopU N cfg h fuel (pos+1) T) := by
-        rw [earliestLoopU]
-        simp only [hlt, ↓reduceIte, hW, Bool.false_and, Bool.false_eq_true]
-        cases step N cfg S (h.at pos) <;> rfl
-      have hfollow : ∀ (c' : Cache) (k' : Nat) (nx : Sid), Inv N cfg c' → NoAccel c' → AtState c' sid S →
-          nx = c'.trans sid.off (cfg.cls (h.at pos)) → nx ≠ Sid.invalid → nx ≠ Sid.deadS →
-          NoAccel (if nx.mtch then ((Outcome.ok true : Outcome Bool), c') else earliestLoopC N cfg h fuel c' (pos+1) nx k').2 ∧
-          ((if nx.mtch then ((Outcome.ok true : Outcome Bool), c') else earliestLoopC N cfg h fuel c' (pos+1) nx k').1 = .gaveUp ∨
-           (if nx.mtch then ((Outcome.ok true : Outcome Bool), c') else earliestLoopC N cfg h fuel c' (pos+1) nx k').1 =
-             earliestLoopU N cfg h (fuel+1) pos S) := by
-        intro c' k' nx hI' hN' hat' hnx hne hnd
+    · have hfollow : ∀ (c' : Cache) (k' : Nat) (nx : Sid) (np : Nat), Inv N cfg c' → AtState N c' sid S →
+          pos ≤ np → np < h.size →
+          nx = c'.trans sid.off (cfg.cls (h.at np)) → nx ≠ Sid.invalid → nx ≠ Sid.deadS →
+          Inv N cfg (if nx.mtch then ((Outcome.ok true : Outcome Bool), c') else earliestLoopC N cfg h fuel c' (np+1) nx k').2 ∧
+          ((if nx.mtch then ((Outcome.ok true : Outcome Bool), c') else earliestLoopC N cfg h fuel c' (np+1) nx k').1 = .gaveUp ∨
+           (if nx.mtch then ((Outcome.ok true : Outcome Bool), c') else earliestLoopC N cfg h fuel c' (np+1) nx k').1 =
+             eU N cfg h np S) := by
+        intro c' k' nx np hI' hat' hnp1 hnp2 hnx hne hnd
         subst hnx
-        rcases follow hW hI' hat' hbb hne with ⟨hd, _⟩ | ⟨_, T', hs, hat'', hm⟩
+        rcases follow hI' hat' (hb np) hne with ⟨hd, _⟩ | ⟨_, T', hs, hat''⟩
         · exact absurd hd hnd
-        · rw [hU, hs]
+        · rw [eU_lt hnp2, hs]
           simp only
-          rw [hm]
+          rw [← hat''.2.2.1]
           split
-          · exact ⟨hN', Or.inr rfl⟩
-          · exact ih c' (pos+1) _ k' T' hI' hN' hat''
+          · exact ⟨hI', Or.inr rfl⟩
+          · rename_i hmf
+            exact ih c' (np+1) _ k' T' (by omega) (by omega) hI' hat'' (by rw [← hat''.2.2.1]; simpa using hmf)
       rw [earliestLoopC]
       simp only [hlt, ↓reduceIte]
       rcases fastStepE_spec (N := N) (cfg := cfg) (c := c) (h := h) (pos := pos) (sid := sid) (k := k) with
@@ -1479,52 +1429,56 @@ theorem earliestLoopC_sim {N : NFA} {cfg : Config} {h : Bytes} (hW : hasWB N = f
             c.trans sid.off (cfg.cls (h.at pos)) != Sid.deadS) = true
         · rw [if_pos hsf]
           simp only [Bool.and_eq_true, bne_iff_ne, ne_eq] at hsf
-          exact hfollow c 0 _ hI hN hat rfl hsf.1.2 hsf.2
+          exact hfollow c 0 _ pos hI hat (Nat.le_refl _) hlt rfl hsf.1.2 hsf.2
         · rw [if_neg hsf, hgs]
           simp only
           obtain ⟨i1, i2, i3, i4, _, i6, i7⟩ := tryDetect_spec (cfg := cfg) hI hcur0
-          obtain ⟨a1, a2, a3⟩ := noAccel_tryDetect (cfg := cfg) hI hN hcur0
           generalize tryDetect cfg c cur0 = dc at *
-          rw [accelJump_nil h a1]
-          simp only
-          have hat2 : AtState dc.2 sid S := hat.ext i2
-          have hlk : dc.2.lookupT sid.off (cfg.cls (h.at pos)) = c.trans sid.off (cfg.cls (h.at pos)) := by
-            rw [hat2.lookupT, i6]
-          have hdn : dc.1.st.nfa = S.nfa := by rw [i4]; exact hcn
-          rw [hlk]
-          simp only [hW, Bool.false_and, Bool.false_eq_true, ↓reduceIte]
-          by_cases hinv : c.trans sid.off (cfg.cls (h.at pos)) = Sid.invalid
-          · rw [if_pos hinv]
-            cases hd : determinize N cfg dc.2 dc.1 (h.at pos) with
-            | mk r c1 =>
-              obtain ⟨hI1, hr⟩ := determinize_spec i1 hC i3 hbb r c1 hd
-              have hN1 := noAccel_determinize i1 a3 i3 a2 (h.at pos) r c1 hd
-              cases r with
-              | dead =>
-                simp only at hr ⊢
-                refine ⟨hN1, Or.inr ?_⟩
-                rw [hU, ← step_congr hW cfg hdn, hr.1]
-              | next cs =>
-                simp only at hr ⊢
-                obtain ⟨⟨T, hs, hn, hm⟩, hget, hext⟩ := hr
-                obtain ⟨_, ci, cd, cm⟩ := hI1.ids _ _ hget
-                rw [hU, ← step_congr hW cfg hdn, hs]
-                simp only
-                rw [hm, ← cm]
-                split
-                · exact ⟨hN1, Or.inr rfl⟩
-                · exact ih c1 (pos+1) cs.id 0 T hI1 hN1 ⟨ci, cd, cs, hget, hn.symm⟩
-              | cleared => exact ⟨hN1, Or.inl rfl⟩
-              | fail => exact ⟨hN1, Or.inl rfl⟩
-          · rw [if_neg hinv]
-            by_cases hdd : c.trans sid.off (cfg.cls (h.at pos)) = Sid.deadS
-            · rw [if_pos hdd]
-              refine ⟨a3, Or.inr ?_⟩
-              rcases follow hW hI hat hbb hinv with ⟨_, hs⟩ | ⟨hnd, _⟩
-              · rw [hU, hs]
-              · exact absurd hdd hnd
-            · rw [if_neg hdd]
-              exact hfollow dc.2 0 _ i1 a3 hat2 (by rw [i6]) hinv hdd
+          have hat2 : AtState N dc.2 sid S := hat.ext i2
+          have hde : Eqv N dc.1.st S := by rw [i4]; exact hcn
+          obtain ⟨s1, s2, _, s4⟩ := accel_skip (cfg := cfg) hb i1 i3 hde hp
+          rw [s4 hnm]
+          generalize accelPos h dc.1 pos = np at *
+          by_cases hge : np ≥ h.size
+          · rw [if_pos hge, eoiC_eq hat2, eU_ge (by omega) s2]
+            exact ⟨i1, Or.inr rfl⟩
+          · rw [if_neg hge]
+            have hnlt : np < h.size := by omega
+            have hlk : dc.2.lookupT sid.off (cfg.cls (h.at np)) = c.trans sid.off (cfg.cls (h.at np)) := by
+              rw [hat2.lookupT, i6]
+            rw [hlk]
+            by_cases hinv : c.trans sid.off (cfg.cls (h.at np)) = Sid.invalid
+            · rw [if_pos hinv]
+              cases hd : determinize N cfg dc.2 dc.1 (h.at np) with
+              | mk r c1 =>
+                obtain ⟨hI1, hr⟩ := determinize_spec i1 hC i3 (hb np) r c1 hd
+                cases r with
+                | dead =>
+                  simp only at hr ⊢
+                  refine ⟨hI1, Or.inr ?_⟩
+                  rw [eU_lt hnlt, ← step_congr cfg hde, hr]
+                | next cs =>
+                  simp only at hr ⊢
+                  obtain ⟨hs, hget⟩ := hr
+                  have hat3 := atState_of_get hI1 hget
+                  rw [eU_lt hnlt, ← step_congr cfg hde, hs]
+                  simp only
+                  rw [← hat3.2.2.1]
+                  split
+                  · exact ⟨hI1, Or.inr rfl⟩
+                  · rename_i hmf
+                    exact ih c1 (np+1) cs.id 0 cs.st (by omega) (by omega) hI1 hat3 (by rw [← hat3.2.2.1]; simpa using hmf)
+                | fail => exact ⟨hI1, Or.inl rfl⟩
+            · rw [if_neg hinv]
+              have hinv2 : dc.2.trans sid.off (cfg.cls (h.at np)) ≠ Sid.invalid := by rw [i6]; exact hinv
+              by_cases hdd : c.trans sid.off (cfg.cls (h.at np)) = Sid.deadS
+              · rw [if_pos hdd]
+                refine ⟨i1, Or.inr ?_⟩
+                rcases follow i1 hat2 (hb np) hinv2 with ⟨_, hs⟩ | ⟨hnd, _⟩
+                · rw [eU_lt hnlt, hs]
+                · rw [i6] at hnd; exact absurd hdd hnd
+              · rw [if_neg hdd]
+                exact hfollow dc.2 0 _ np i1 hat2 s1 hnlt (by rw [i6]) hinv hdd
       · have hn' : n = c.trans sid.off (cfg.cls (h.at pos)) := by
           rcases hn with ⟨_, hn⟩ | ⟨_, _, hn⟩
           · rw [hn, hat.lookupT]
@@ -1535,7 +1489,7 @@ theorem earliestLoopC_sim {N : NFA} {cfg : Config} {h : Bytes} (hW : hasWB N = f
           simp only
           have hne : n ≠ Sid.invalid := by intro he; rw [he] at hm; cases hm
           have hnd : n ≠ Sid.deadS := by intro he; rw [he] at hm; cases hm
-          have := hfollow c 0 n hI hN hat hn' hne hnd
+          have := hfollow c 0 n pos hI hat (Nat.le_refl _) hlt hn' hne hnd
           rw [hm] at this
           simpa using this
         · rw [hs]
@@ -1543,307 +1497,109 @@ theorem earliestLoopC_sim {N : NFA} {cfg : Config} {h : Bytes} (hW : hasWB N = f
           obtain ⟨t1, t2, t3, t4⟩ := tagged_false ht
           have hne : n ≠ Sid.invalid := by intro he; rw [he] at t1; cases t1
           have hnd : n ≠ Sid.deadS := by intro he; rw [he] at t2; cases t2
-          have := hfollow c (nextPhase k) n hI hN hat hn' hne hnd
+          have := hfollow c (nextPhase k) n pos hI hat (Nat.le_refl _) hlt hn' hne hnd
           rw [t4] at this
           simpa using this
-    · rw [earliestLoopC, earliestLoopU]
-      simp only [hlt, ↓reduceIte, hgs]
-      rw [checkEOI_congr hW hcn]
-      exact ⟨hN, Or.inr rfl⟩
-
-theorem earliestLoopC_invalid {N : NFA} {cfg : Config} {h : Bytes} (hW : hasWB N = false) (hC : ClassSound N cfg)
-    (hb : BytesOK h) {c : Cache} (hI : Inv N cfg c) (hN : NoAccel c) {S : DState} (h0 : Row0OK c S) {pos : Nat}
-    (hlt : pos < h.size) (fuel : Nat) :
-    NoAccel (earliestLoopC N cfg h (fuel+1) c pos Sid.invalid 0).2 ∧
-    ((earliestLoopC N cfg h (fuel+1) c pos Sid.invalid 0).1 = .gaveUp ∨
-     (earliestLoopC N cfg h (fuel+1) c pos Sid.invalid 0).1 = earliestLoopU N cfg h (fuel+1) pos S) := by
-  rw [earliestLoopC]
-  simp only [hlt, ↓reduceIte]
-  have hoff : Sid.invalid.off = 0 := rfl
-  have hU : earliestLoopU N cfg h (fuel+1) pos S =
-      (match step N cfg S (h.at pos) with
-       | .dead => .ok false
-       | .limit => .gaveUp
-       | .next T => if T.isMatch then .ok true else earliestLoopU N cfg h fuel (pos+1) T) := by
-    rw [earliestLoopU]
-    simp only [hlt, ↓reduceIte, hW, Bool.false_and, Bool.false_eq_true]
-    cases step N cfg S (h.at pos) <;> rfl
-  -- a non-invalid entry of row 0 describes the step from `S`
-  have hrow : ∀ n, n = c.trans 0 (cfg.cls (h.at pos)) → n ≠ Sid.invalid → n ≠ Sid.deadS →
-      ∃ T', step N cfg S (h.at pos) = .next T' ∧ AtState c n T' ∧ T'.isMatch = n.mtch := by
-    intro n hn hne hnd
-    rcases hI.trans 0 (cfg.cls (h.at pos)) with hi | ⟨S0, hS0, _⟩
-    · exact absurd (hn.trans hi) hne
-    · have hat0 : AtState c { off := 0 } S := ⟨rfl, rfl, S0, hS0, h0 S0 hS0⟩
-      rcases follow hW hI hat0 (hb pos) (by rw [← hn]; exact hne) with ⟨hd, _⟩ | ⟨_, T', hs, hat', hm⟩
-      · exact absurd (hn.trans hd) hnd
-      · have hn' : c.trans ({ off := 0 } : Sid).off (cfg.cls (h.at pos)) = n := hn.symm
-        rw [hn'] at hat' hm
-        exact ⟨T', hs, hat', hm⟩
-  rcases fastStepE_spec (N := N) (cfg := cfg) (c := c) (h := h) (pos := pos) (sid := Sid.invalid) (k := 0) with
-    hs | ⟨n, hcase, hn⟩
-  · rw [hs]
-    simp only
-    have hst : Sid.invalid.start = false := rfl
-    rw [getState_invalid, hst]
-    simp only [Bool.false_and, Bool.false_eq_true, ↓reduceIte]
-    exact ⟨hN, Or.inl trivial⟩
-  · have hn0 : n = c.trans 0 (cfg.cls (h.at pos)) := by
-      rcases hn with ⟨hk, _⟩ | ⟨_, _, hn⟩
-      · omega
-      · rw [hoff] at hn; exact hn
-    rcases hcase with ⟨hs, hm, _⟩ | ⟨hs, ht⟩
-    · rw [hs]
-      simp only
-      have hne : n ≠ Sid.invalid := by intro he; rw [he] at hm; cases hm
-      have hnd : n ≠ Sid.deadS := by intro he; rw [he] at hm; cases hm
-      obtain ⟨T', hst, _, hmm⟩ := hrow n hn0 hne hnd
-      refine ⟨hN, Or.inr ?_⟩
-      rw [hU, hst]
-      simp only
-      rw [hmm, hm]
-      rfl
-    · rw [hs]
-      simp only
-      obtain ⟨t1, t2, t3, t4⟩ := tagged_false ht
-      have hne : n ≠ Sid.invalid := by intro he; rw [he] at t1; cases t1
-      have hnd : n ≠ Sid.deadS := by intro he; rw [he] at t2; cases t2
-      obtain ⟨T', hst, hat', hmm⟩ := hrow n hn0 hne hnd
-      rw [hU, hst]
-      simp only
-      rw [hmm, t4]
-      simp only [Bool.false_eq_true, ↓reduceIte]
-      exact earliestLoopC_sim hW hC hb fuel c (pos+1) _ (nextPhase 0) T' hI hN hat'
+    · rw [earliestLoopC]
+      simp only [hlt, ↓reduceIte]
+      rw [eoiC_eq hat, eU_ge hlt hp]
+      exact ⟨hI, Or.inr rfl⟩
 
 /-- (a) for `searchEarliestMatch` (`IsMatch`, `IsMatchAt`) -/
-theorem earliestC_eq {N : NFA} {cfg : Config} {h : Bytes} {c : Cache} (hW : hasWB N = false) (hC : ClassSound N cfg)
-    (hb : BytesOK h) (hI : Inv N cfg c) (hN : NoAccel c) (h0 : c.clearCount = 0 ∨ noStartLookB N = true)
-    {startPos : Nat} (hp : startPos < h.size) :
-    Inv N cfg (earliestC N cfg c h startPos).2 ∧ NoAccel (earliestC N cfg c h startPos).2 ∧
+theorem earliestC_eq {N : NFA} {cfg : Config} {h : Bytes} {c : Cache} (hC : ClassSound N cfg)
+    (hb : BytesOK h) (hI : Inv N cfg c) (startPos : Nat) :
+    Inv N cfg (earliestC N cfg c h startPos).2 ∧
     ((earliestC N cfg c h startPos).1 = .gaveUp ∨ (earliestC N cfg c h startPos).1 = earliestU N cfg h startPos) := by
-  refine ⟨earliestC_inv hC hb hI startPos, ?_⟩
   unfold earliestC earliestU
-  have hgt : ¬ startPos > h.size := by omega
-  simp only [hgt, ↓reduceIte]
-  by_cases ha : alwaysAnchored N = true ∧ startPos > 0
-  · simp only [ha, and_self, ↓reduceIte]
-    exact ⟨hN, Or.inr trivial⟩
-  · rw [if_neg ha, if_neg ha]
-    cases hg : getStart N cfg c h startPos false with
-    | mk ocur c1 =>
-      obtain ⟨hI1, _, hcc, hcur⟩ := getStart_spec hI h startPos false ocur c1 hg
-      have hN1 := noAccel_getStart hI hN h startPos false ocur c1 hg
-      cases ocur with
-      | none => exact ⟨hN1, Or.inl rfl⟩
-      | some cur =>
-        simp only
-        obtain ⟨hn, hid | ⟨hi, hd, hget⟩⟩ := hcur cur rfl
-        · obtain ⟨hid, rfl⟩ := hid
-          have hf : h.size + 1 - startPos = (h.size - startPos) + 1 := by omega
-          rw [hid, hf]
-          exact earliestLoopC_invalid hW hC hb hI hN (row0OK_of hI h0 _) hp _
-        · exact earliestLoopC_sim hW hC hb _ c1 startPos cur.id 0 _ hI1 hN1 ⟨hi, hd, cur, hget, hn⟩
+  by_cases hgt : startPos > h.size
+  · simp only [hgt, ↓reduceIte]
+    exact ⟨hI, Or.inr trivial⟩
+  · simp only [hgt, ↓reduceIte]
+    by_cases ha : alwaysAnchored N = true ∧ startPos > 0
+    · simp only [ha, and_self, ↓reduceIte]
+      exact ⟨hI, Or.inr trivial⟩
+    · rw [if_neg ha, if_neg ha]
+      cases hg : getStart N cfg c h startPos false with
+      | mk ocur c1 =>
+        obtain ⟨hI1, hcur⟩ := getStart_spec hI h startPos false ocur c1 hg
+        cases ocur with
+        | none => exact ⟨hI1, Or.inl rfl⟩
+        | some cur =>
+          simp only
+          obtain ⟨hn, hi, hd, hget⟩ := hcur cur rfl
+          have hat := atState_of_get hI1 hget
+          rw [hn] at hat
+          exact earliestLoopC_sim hC hb _ c1 startPos cur.id 0 _ (Nat.le_refl _) (by omega) hI1 hat rfl
 
+/-! ### `SearchAtAnchored` -/
 
-/-! ### `SearchAtAnchored` when no clear is allowed -/
-
-/-- more fuel than positions left does not change the uncached anchored loop -/
-theorem anchoredLoopU_fuel (N : NFA) (cfg : Config) (h : Bytes) : ∀ (fuel pos : Nat) (S : DState) (last : Option Nat)
-    (k : Nat), pos ≤ h.size → h.size + 1 - pos ≤ fuel →
-    anchoredLoopU N cfg h (fuel + k) pos S last = anchoredLoopU N cfg h fuel pos S last := by
-  intro fuel
-  induction fuel with
-  | zero => intro pos S last k hp hf; omega
-  | succ fuel ih =>
-    intro pos S last k hp hf
-    have : fuel + 1 + k = (fuel + k) + 1 := by omega
-    rw [this, anchoredLoopU, anchoredLoopU]
-    by_cases hlt : pos < h.size
-    · simp only [hlt, ↓reduceIte]
-      split
-      · rfl
-      · cases step N cfg S (h.at pos) with
-        | dead => rfl
-        | limit => rfl
-        | next T => exact ih (pos+1) T _ k (by omega) (by omega)
-    · simp only [hlt, ↓reduceIte]
-
-
-theorem determinize_not_cleared {N : NFA} {cfg : Config} (hm : cfg.maxClears = 0) (c : Cache) (cur : CState) (b : Nat)
-    (c1 : Cache) : determinize N cfg c cur b ≠ (.cleared, c1) := by
-  unfold determinize
-  intro hd
-  split at hd
-  · cases hd
-  · cases hd
-  · split at hd
-    · cases hd
-    · split at hd
-      · cases hd
-      · rw [if_pos (by omega)] at hd
-        cases hd
-
-theorem anchoredLoopC_sim {N : NFA} {cfg : Config} {h : Bytes} (hW : hasWB N = false) (hC : ClassSound N cfg)
-    (hb : BytesOK h) (hm0 : cfg.maxClears = 0) :
+theorem anchoredLoopC_sim {N : NFA} {cfg : Config} {h : Bytes} (hC : ClassSound N cfg) (hb : BytesOK h) :
     ∀ (fuel : Nat) (c : Cache) (pos : Nat) (sid : Sid) (last : Option Nat) (S : DState),
-    Inv N cfg c → AtState c sid S →
+    h.size + 1 - pos ≤ fuel → pos ≤ h.size → Inv N cfg c → AtState N c sid S →
     Inv N cfg (anchoredLoopC N cfg h fuel c pos sid last).2 ∧
     ((anchoredLoopC N cfg h fuel c pos sid last).1 = .gaveUp ∨
-     (anchoredLoopC N cfg h fuel c pos sid last).1 = anchoredLoopU N cfg h fuel pos S last) := by
+     (anchoredLoopC N cfg h fuel c pos sid last).1 = sU N cfg h pos S last) := by
   intro fuel
   induction fuel with
-  | zero => intro c pos sid last S hI _; exact ⟨hI, Or.inr rfl⟩
+  | zero => intro c pos sid last S hf hp _ _; omega
   | succ fuel ih =>
-    intro c pos sid last S hI hat
+    intro c pos sid last S hf hp hI hat
     obtain ⟨cur, hgs, hcur, hcn⟩ := hat.getState
-    have hbb : h.at pos < 256 := hb pos
     by_cases hlt : pos < h.size
-    · have hU : anchoredLoopU N cfg h (fuel+1) pos S last =
-          (match step N cfg S (h.at pos) with
-           | .dead => .ok last
-           | .limit => .gaveUp
-           | .next T => anchoredLoopU N cfg h fuel (pos+1) T (if T.isMatch then some pos else last)) := by
-        rw [anchoredLoopU]
-        simp only [hlt, ↓reduceIte, hW, Bool.false_and, Bool.false_eq_true]
-        cases step N cfg S (h.at pos) <;> rfl
-      rw [anchoredLoopC]
-      simp only [hlt, ↓reduceIte, hW, Bool.false_and, Bool.false_eq_true]
+    · rw [anchoredLoopC]
+      simp only [hlt, ↓reduceIte]
       rw [hat.lookupT]
       by_cases hinv : c.trans sid.off (cfg.cls (h.at pos)) = Sid.invalid
       · rw [if_pos hinv, hgs]
         simp only
         cases hd : determinize N cfg c cur (h.at pos) with
         | mk r c1 =>
-          obtain ⟨hI1, hr⟩ := determinize_spec hI hC hcur hbb r c1 hd
+          obtain ⟨hI1, hr⟩ := determinize_spec hI hC hcur (hb pos) r c1 hd
           cases r with
           | dead =>
             simp only at hr ⊢
             refine ⟨hI1, Or.inr ?_⟩
-            rw [hU, ← step_congr hW cfg hcn, hr.1]
+            rw [sU_lt hlt, ← step_congr cfg hcn, hr]
           | next cs =>
             simp only at hr ⊢
-            obtain ⟨⟨T, hs, hn, hm⟩, hget, hext⟩ := hr
-            obtain ⟨_, ci, cd, cm⟩ := hI1.ids _ _ hget
-            rw [hU, ← step_congr hW cfg hcn, hs]
+            obtain ⟨hs, hget⟩ := hr
+            have hat3 := atState_of_get hI1 hget
+            rw [sU_lt hlt, ← step_congr cfg hcn, hs]
             simp only
-            rw [hm, ← cm]
-            exact ih c1 (pos+1) cs.id _ T hI1 ⟨ci, cd, cs, hget, hn.symm⟩
-          | cleared => exact absurd hd (determinize_not_cleared hm0 c cur _ c1)
+            rw [← hat3.2.2.1]
+            exact ih c1 (pos+1) cs.id _ cs.st (by omega) (by omega) hI1 hat3
           | fail => exact ⟨hI1, Or.inl rfl⟩
       · rw [if_neg hinv]
-        rcases follow hW hI hat hbb hinv with ⟨hd, hs⟩ | ⟨hnd, T', hs, hat', hm⟩
+        rcases follow hI hat (hb pos) hinv with ⟨hd, hs⟩ | ⟨hnd, T', hs, hat'⟩
         · rw [if_pos hd]
-          exact ⟨hI, Or.inr (by rw [hU, hs])⟩
-        · rw [if_neg hnd, hU, hs]
+          exact ⟨hI, Or.inr (by rw [sU_lt hlt, hs])⟩
+        · rw [if_neg hnd, sU_lt hlt, hs]
           simp only
-          rw [hm]
-          exact ih c (pos+1) _ _ T' hI hat'
-    · rw [anchoredLoopC, anchoredLoopU]
-      simp only [hlt, ↓reduceIte, hgs]
-      rw [checkEOI_congr hW hcn]
+          rw [← hat'.2.2.1]
+          exact ih c (pos+1) _ _ T' (by omega) (by omega) hI hat'
+    · rw [anchoredLoopC]
+      simp only [hlt, ↓reduceIte]
+      rw [eoiC_eq hat, sU_ge hlt hp]
       split
       · exact ⟨hI, Or.inr rfl⟩
       · exact ⟨hI, Or.inr rfl⟩
 
-theorem anchoredLoopC_invalid {N : NFA} {cfg : Config} {h : Bytes} {c : Cache} (hW : hasWB N = false) (hI : Inv N cfg c)
-    (h0 : c.list.getD 0 none = none) {pos : Nat} (hlt : pos < h.size) (fuel : Nat) (last : Option Nat) :
-    anchoredLoopC N cfg h (fuel+1) c pos Sid.invalid last = (.gaveUp, c) := by
-  have hinv : c.lookupT Sid.invalid.off (cfg.cls (h.at pos)) = Sid.invalid := by
-    unfold Cache.lookupT
-    split
-    · rcases hI.trans 0 (cfg.cls (h.at pos)) with hi | ⟨S, hS, _⟩
-      · exact hi
-      · rw [h0] at hS; cases hS
-    · rfl
-  rw [anchoredLoopC]
-  simp only [hlt, ↓reduceIte, hW, Bool.false_and, Bool.false_eq_true, hinv]
-  simp [Sid.invalid, Cache.getState]
-
-/-- (a) for `SearchAtAnchored`, ONLY when the configuration allows no cache clear: with `maxClears > 0` the loop
-    restarts from the start state after a clear and the statement is false (`Cx.Proofs.Dfa.anchored_clear_visible`) -/
-theorem anchoredC_eq {N : NFA} {cfg : Config} {h : Bytes} {c : Cache} (hW : hasWB N = false) (hC : ClassSound N cfg)
-    (hb : BytesOK h) (hm0 : cfg.maxClears = 0) (hI : Inv N cfg c) (h0 : c.clearCount = 0) {at_ : Nat} (hp : at_ < h.size) :
+/-- (a) for `SearchAtAnchored`, for every clear limit: a cache clear no longer loses the threads in flight -/
+theorem anchoredC_eq {N : NFA} {cfg : Config} {h : Bytes} {c : Cache} (hC : ClassSound N cfg)
+    (hb : BytesOK h) (hI : Inv N cfg c) {at_ : Nat} (hp : at_ ≤ h.size) :
     Inv N cfg (anchoredC N cfg c h at_).2 ∧
     ((anchoredC N cfg c h at_).1 = .gaveUp ∨ (anchoredC N cfg c h at_).1 = anchoredU N cfg h at_) := by
   unfold anchoredC anchoredU
   cases hg : getStart N cfg c h at_ true with
   | mk ocur c1 =>
-    obtain ⟨hI1, _, hcc, hcur⟩ := getStart_spec hI h at_ true ocur c1 hg
+    obtain ⟨hI1, hcur⟩ := getStart_spec hI h at_ true ocur c1 hg
     cases ocur with
     | none => exact ⟨hI1, Or.inl rfl⟩
     | some cur =>
       simp only
-      obtain ⟨hn, hid | ⟨hi, hd, hget⟩⟩ := hcur cur rfl
-      · obtain ⟨hid, rfl⟩ := hid
-        have hf : h.size + cfg.maxClears + 2 - at_ = (h.size + 1 - at_) + 1 := by omega
-        rw [hid, hf, anchoredLoopC_invalid hW hI (hI.row0 h0) hp]
-        exact ⟨hI, Or.inl rfl⟩
-      · have hf : h.size + cfg.maxClears + 2 - at_ = (h.size + 1 - at_) + 1 := by omega
-        have := anchoredLoopC_sim hW hC hb hm0 (h.size + 1 - at_ + 1) c1 at_ cur.id none _ hI1 ⟨hi, hd, cur, hget, hn⟩
-        rw [hf]
-        refine ⟨this.1, ?_⟩
-        rcases this.2 with hg | he
-        · exact Or.inl hg
-        · right
-          rw [he]
-          exact anchoredLoopU_fuel N cfg h _ _ _ _ 1 (by omega) (by omega)
-
-/-! ### the invariant survives `SearchAtAnchored` also when it clears and restarts -/
-
-theorem anchoredLoopC_inv {N : NFA} {cfg : Config} {h : Bytes} (hC : ClassSound N cfg) (hb : BytesOK h) :
-    ∀ (fuel : Nat) (c : Cache) (pos : Nat) (sid : Sid) (last : Option Nat), Inv N cfg c →
-      Inv N cfg (anchoredLoopC N cfg h fuel c pos sid last).2 := by
-  intro fuel
-  induction fuel with
-  | zero => intro c pos sid last hI; exact hI
-  | succ fuel ih =>
-    intro c pos sid last hI
-    rw [anchoredLoopC]
-    cases hgs : c.getState sid with
-    | none =>
-      simp only
-      split
-      · simp only [Bool.and_false, Bool.false_eq_true, ↓reduceIte]
-        split
-        · exact hI
-        · split
-          · exact hI
-          · exact ih _ _ _ _ hI
-      · exact hI
-    | some cur =>
-      simp only
-      split
-      · split
-        · exact hI
-        · split
-          · cases hd : determinize N cfg c cur (h.at pos) with
-            | mk r c1 =>
-              obtain ⟨hI1, _⟩ := determinize_spec hI hC (getState_some hgs) (hb pos) r c1 hd
-              cases r with
-              | dead => exact hI1
-              | next cs => exact ih _ _ _ _ hI1
-              | cleared =>
-                simp only
-                cases hg : getStart N cfg c1 h pos true with
-                | mk ocur c2 =>
-                  obtain ⟨hI2, _⟩ := getStart_spec hI1 h pos true ocur c2 hg
-                  cases ocur with
-                  | none => exact hI2
-                  | some st => exact ih _ _ _ _ hI2
-              | fail => exact hI1
-          · split
-            · exact hI
-            · exact ih _ _ _ _ hI
-      · split <;> exact hI
-
-theorem anchoredC_inv {N : NFA} {cfg : Config} {h : Bytes} (hC : ClassSound N cfg) (hb : BytesOK h) {c : Cache}
-    (hI : Inv N cfg c) (at_ : Nat) : Inv N cfg (anchoredC N cfg c h at_).2 := by
-  unfold anchoredC
-  cases hg : getStart N cfg c h at_ true with
-  | mk ocur c1 =>
-    obtain ⟨hI1, _⟩ := getStart_spec hI h at_ true ocur c1 hg
-    cases ocur with
-    | none => exact hI1
-    | some cur => exact anchoredLoopC_inv hC hb _ _ _ _ _ hI1
+      obtain ⟨hn, hi, hd, hget⟩ := hcur cur rfl
+      have hat := atState_of_get hI1 hget
+      rw [hn] at hat
+      exact anchoredLoopC_sim hC hb _ c1 at_ cur.id none _ (Nat.le_refl _) hp hI1 hat
 
 end Cx.Dfa
